@@ -2,13 +2,14 @@
 from __future__ import annotations
 
 import ast
+import itertools
 
 from sa import pat, source, tables
-from sa.cfg import cfg_of, conjuncts, guards, facts, holds
+from sa.cfg import cfg_of, conjuncts, guards, facts, holds, negate
 from sa.classes import is_logging_stmt
 from sa.minieval import CannotEval, ev
 from sa.source import AnchorMissing, arg_of, dotted, is_self_attr, last_attr, local_defs, params_of, short, u, walk_body
-from sa.sym import UnknownAtom, oriented
+from sa.sym import UnknownAtom, atoms_of, bool_eval, oriented
 
 _N = "esrally/utils/net.py"
 _I = "esrally/utils/io.py"
@@ -40,7 +41,7 @@ def eval_with(test, vals):
 
     class S(ast.NodeTransformer):
         def visit(self, n):
-            if isinstance(n, ast.expr) and u(n) in vals:
+            if isinstance(n, ast.expr) and not isinstance(getattr(n, "ctx", None), ast.Store) and u(n) in vals:
                 return ast.Constant(value=vals[u(n)])
             return self.generic_visit(n)
 
@@ -155,6 +156,196 @@ def expr(text):
     return ast.parse(text, mode="eval").body
 
 
+_LINES = ("", "\n", "x\n", "x", " \n")  # what readline() can return: "" only at end of file — a blank line is "\n", the last line may lack its newline
+
+
+class LineScan:
+    """role 'how the writer walks the data file', located from the loop that holds the add_offset call (F = the file object):
+      body  while ...:  `<L> = F.readline()` is a statement of the loop, the end-of-file test follows in the body
+      test  while <test over F.readline()>:                       (`while F.readline():`, `while (L := F.readline()):`, `while len(F.readline()) > 0:`)
+      iter  for <T> in [enumerate(] iter(F.readline, <sentinel>) [, <start>)]:
+      file  for <T> in [enumerate(] F [)]:                        — the file object itself is iterated, readline() is not used
+    reads = every readline() performed per iteration; index / start = the enumerate position variable and its first value."""
+
+    def __init__(self, kind, fobj, read, reads, line=None, index=None, start=None, sentinel=None):
+        self.kind, self.fobj, self.read, self.reads, self.line, self.index, self.start, self.sentinel = kind, fobj, read, reads, line, index, start, sentinel
+
+
+def opened_files(fn):
+    """{local: open(...) call}: the names bound to a file object in fn (`with open(...) as F`, `F = open(...)`)."""
+    out = {}
+    for n in walk_body(fn):
+        if isinstance(n, (ast.With, ast.AsyncWith)):
+            for it in n.items:
+                if isinstance(it.context_expr, ast.Call) and dotted(it.context_expr.func) in ("open", "io.open") and isinstance(it.optional_vars, ast.Name):
+                    out[it.optional_vars.id] = it.context_expr
+        elif isinstance(n, ast.Assign) and len(n.targets) == 1 and isinstance(n.targets[0], ast.Name) and isinstance(n.value, ast.Call) and dotted(n.value.func) in ("open", "io.open"):
+            out[n.targets[0].id] = n.value
+    return out
+
+
+def line_scan(fn, loop):
+    """LineScan of `loop`, or None when it reads in none of the recognised ways."""
+    own = lambda n: source.enclosing(n, (ast.While, ast.For)) is loop  # noqa: E731
+    reads = [n for n in ast.walk(loop) if isinstance(n, ast.Call) and isinstance(n.func, ast.Attribute) and n.func.attr == "readline" and not n.args and not n.keywords and own(n)]
+    if isinstance(loop, ast.For):
+        it, index, start, line = loop.iter, None, None, loop.target.id if isinstance(loop.target, ast.Name) else None
+        if isinstance(it, ast.Call) and dotted(it.func) == "enumerate" and it.args:
+            if not (isinstance(loop.target, ast.Tuple) and len(loop.target.elts) == 2 and all(isinstance(t, ast.Name) for t in loop.target.elts)):
+                return None
+            index, line = loop.target.elts[0].id, loop.target.elts[1].id
+            start = arg_of(it, 1, "start") or ast.Constant(value=0)
+            it = it.args[0]
+        if isinstance(it, ast.Call) and dotted(it.func) == "iter" and len(it.args) == 2 and not it.keywords and isinstance(it.args[0], ast.Attribute) and it.args[0].attr == "readline":
+            return LineScan("iter", u(it.args[0].value), it, [it] + reads, line, index, start, it.args[1])
+        if isinstance(it, ast.Name) and it.id in opened_files(fn) and not reads:
+            return LineScan("file", it.id, it, [], line, index, start)
+        return None
+    in_test = [n for n in reads if any(n is x for x in ast.walk(loop.test))]
+    if in_test:
+        tgt = [x.target.id for x in ast.walk(loop.test) if isinstance(x, ast.NamedExpr) and x.value is in_test[0]]
+        return LineScan("test", u(in_test[0].func.value), in_test[0], reads, tgt[0] if tgt else None)
+    if reads:
+        r = reads[0]
+        st = source.enclosing_stmt(r)
+        line = st.targets[0].id if isinstance(st, ast.Assign) and st.value is r and len(st.targets) == 1 and isinstance(st.targets[0], ast.Name) else None
+        tgt = [x.target.id for x in ast.walk(st) if isinstance(x, ast.NamedExpr) and x.value is r]
+        return LineScan("body", u(r.func.value), r, reads, line or (tgt[0] if tgt else None))
+    return None
+
+
+def scan_step(loop, sc, cnt, value):
+    """One iteration of the scanning loop for the case 'the read returned `value`', evaluated on the extracted tests (tables.decide / minieval; nothing runs):
+    (scan ends, the counter `cnt` was advanced before that). CannotEval when a test that matters is beyond the evaluator."""
+    vals = {u(sc.read): value}
+    if sc.line:
+        vals[sc.line] = value
+    if sc.kind == "test":
+        if not bool(eval_with(loop.test, vals)):
+            return True, False
+    elif not (isinstance(loop.test, ast.Constant) and loop.test.value is True):
+        raise CannotEval(f"loop condition `{u(loop.test)[:60]}` besides the read in the body")
+
+    def is_inc(s_):
+        return isinstance(s_, ast.AugAssign) and u(s_.target) == cnt
+
+    def atom(n, env):
+        return bool(eval_with(n, vals))
+
+    def on_stmt(s_, env, b):
+        if is_inc(s_) or (isinstance(s_, ast.Assign) and any(x is sc.read for x in ast.walk(s_))):
+            return None
+        return None if any(isinstance(x, _JUMPS) for x in ast.walk(s_)) else "skip"
+
+    try:
+        o = tables.decide(loop.body, atom, {}, on_stmt=on_stmt)
+    except (tables.Unsupported, UnknownAtom) as e:
+        raise CannotEval(str(e))
+    return o.kind in ("break", "return"), any(is_inc(e) for e in o.effects)
+
+
+def offset_table_writer(chk, rid, io_mod, pf):
+    """the writer half of O14.6 / O3.7: (scanning loop or None, return statements of prepare_file_offset_table). Every role is located by data flow from the add_offset call; a role
+    that cannot be located is reported as not recognised (chk.unknown), never as a falsified obligation."""
+    g = cfg_of(pf)
+    rets = [n for n in walk_body(pf) if isinstance(n, ast.Return)]
+    FT = io_mod.cls("FileOffsetTable")
+    ao = method(io_mod, FT, "add_offset")
+    aop = params(ao, 3)
+    add = [n for n in walk_body(pf) if isinstance(n, ast.Call) and last_attr(n.func) == "add_offset"]
+    if not add:
+        raise AnchorMissing("add_offset call in prepare_file_offset_table")
+    a = add[0]
+    loop = source.enclosing(a, (ast.While, ast.For))
+    tbl = u(a.func.value) if isinstance(a.func, ast.Attribute) else None
+    if loop is None or source.enclosing_func(loop) is not pf:
+        chk.unknown(rid, "prepare_file_offset_table: the add_offset call is not inside a loop of this function (the scan cannot be followed)", a)
+        return None, rets, None
+    sc = line_scan(pf, loop)
+    if sc is None:
+        chk.unknown(rid, "prepare_file_offset_table: the loop around add_offset reads the data file in none of the recognised ways (readline() as a statement of the loop / in the while "
+                         "test / iter(F.readline, sentinel))", loop)
+        return loop, rets, tbl
+    # role: the line counter = the local passed as add_offset's line-number parameter; the recorded offset = the argument bound to its offset parameter
+    b = source.bind_args(a, ao)
+    carg, oarg = b.get(aop[1]), b.get(aop[2])
+    is_tell = lambda e: isinstance(e, ast.Call) and isinstance(e.func, ast.Attribute) and e.func.attr == "tell" and not e.args  # noqa: E731
+    if is_tell(carg) and isinstance(oarg, ast.Name):
+        chk.ob(rid, "recorded offset is tell() of the file object being read", False, a, short(a, 80) + f" — the position is passed as `{aop[1]}`, the local `{oarg.id}` as `{aop[2]}`: the arguments are swapped")
+        return loop, rets, tbl
+    if not isinstance(carg, ast.Name) or oarg is None:
+        chk.unknown(rid, f"prepare_file_offset_table: the arguments of `{short(a, 70)}` cannot be bound to (line number local, offset)", a)
+        return loop, rets, tbl
+    cnt = carg.id
+    ok = sc.kind != "file" and len(sc.reads) == 1
+    chk.ob(rid, "writer reads the data file line by line with readline()", ok, sc.read,
+           "" if ok else ("the file is iterated another way (tell() is not a byte position then)" if sc.kind == "file" else f"{len(sc.reads)} reads per iteration of the scanning loop"))
+    stores = [n for n in ast.walk(loop) if (isinstance(n, ast.AugAssign) and u(n.target) == cnt) or (isinstance(n, ast.Assign) and any(u(t) == cnt for t in n.targets))]
+    by_index = sc.index == cnt
+    inc = None
+    if by_index:
+        # enumerate(..., start): the counter is the position variable; it is the number of lines read so far iff the first position is 1
+        try:
+            first = ev(sc.start, {})
+        except CannotEval:
+            first = None
+        if first is None:
+            chk.unknown(rid, f"prepare_file_offset_table: the first value of the enumerate() counter `{u(sc.start)}` cannot be evaluated", loop)
+        else:
+            ok = first == 1 and not isinstance(first, bool) and not stores
+            chk.ob(rid, "line counter += 1 once per line read", ok, loop, "" if ok else f"`{cnt}` is the enumerate() position starting at {first!r}" + (" and is stored to inside the loop" if stores else ""))
+    elif not stores:
+        chk.unknown(rid, f"prepare_file_offset_table: the line counter `{cnt}` (first argument of add_offset) is not advanced inside the scanning loop", loop)
+    else:
+        inc = stores[0]
+        ok = len(stores) == 1 and isinstance(inc, ast.AugAssign) and isinstance(inc.op, ast.Add) and source.is_const(inc.value, 1) and not guards(inc, stop=loop) \
+            and (sc.kind != "body" or g.dominated_by_nodes(g.node_of(inc), [g.node_of(sc.read)])) and len(sc.reads) == 1
+        chk.ob(rid, "line counter += 1 once per line read", ok, inc, "" if ok else f"{len(stores)} store(s) to `{cnt}` in the loop: {short(inc, 60)}")
+    ok = is_tell(oarg) and u(oarg.func.value) == sc.fobj
+    chk.ob(rid, "recorded offset is tell() of the file object being read", ok, a, short(a, 80) + ("" if ok else " — a computed character/byte count is not the position to seek to"))
+    if by_index:
+        chk.ob(rid, "offset recorded after the counter was advanced for that line", any(x is loop for x in source.ancestors(a)), a, "the counter is advanced by the loop head")
+    elif inc is not None:
+        ok = g.dominated_by_nodes(g.node_of(a), [g.node_of(inc)]) and not g.path_exists(g.node_of(a), g.node_of(inc), avoid=[g.node_of(loop)])
+        chk.ob(rid, "offset recorded after the counter was advanced for that line", ok, a, "")
+    # end of file: evaluated on representative results of the read — "" ends the scan before it is counted, anything else (a blank line, a last line without newline) is counted
+    if sc.kind == "iter":
+        try:
+            sv = ev(sc.sentinel, {})
+            ok = isinstance(sv, (str, bytes)) and len(sv) == 0
+            chk.ob(rid, "an empty read ends the scan before it is counted", ok, sc.read, "" if ok else f"iter() stops at {sv!r}, not at the empty read")
+        except CannotEval:
+            chk.unknown(rid, f"prepare_file_offset_table: the sentinel `{u(sc.sentinel)}` of iter() cannot be evaluated", sc.read)
+    elif sc.kind in ("body", "test") and (by_index or inc is not None):
+        wrong = []
+        try:
+            for v in _LINES:
+                ends, counted = scan_step(loop, sc, cnt, v)
+                if ends != (v == "") or (ends and counted) or (not ends and not counted and not by_index):
+                    wrong.append(f"read {v!r}: {'ends the scan' if ends else 'goes on'}, {'counted' if counted else 'not counted'}")
+            brk = [n for n in ast.walk(loop) if isinstance(n, ast.Break) and source.enclosing(n, (ast.While, ast.For)) is loop]
+            chk.ob(rid, "an empty read ends the scan before it is counted", not wrong, brk[0] if brk else loop, "; ".join(wrong))
+        except CannotEval as x:
+            chk.unknown(rid, f"prepare_file_offset_table: the end-of-file test of the scanning loop cannot be evaluated: {x}", loop)
+    # the value handed back is the counter, which starts at 0 before the loop (an empty file has 0 lines); None stands for "no rebuild"
+    inits = [n for n in walk_body(pf) if isinstance(n, ast.Assign) and len(n.targets) == 1 and u(n.targets[0]) == cnt and not any(x is loop for x in source.ancestors(n))]
+    vals = [returned(r) for r in rets]
+    if not inits or not any(v is not None and u(v) == cnt for v in vals):
+        chk.unknown(rid, f"prepare_file_offset_table: the initial value of the line counter `{cnt}` / the return of its final value cannot be located", pf)
+    else:
+        ok = len(inits) == 1 and source.is_const(inits[0].value, 0) and g.dominated_by_nodes(g.node_of(loop), [g.node_of(inits[0])]) \
+            and all(v is None or u(v) == cnt or (isinstance(v, ast.Constant) and v.value is None) for v in vals) and any(v is None or (isinstance(v, ast.Constant) and v.value is None) for v in vals)
+        chk.ob(rid, "returns the number of lines read (None when no rebuild was needed)", ok, pf, "" if ok else f"counter starts with {[u(n.value) for n in inits]}, returns {[u(v) for v in vals]}")
+    op = opened_files(pf).get(sc.fobj)
+    if op is None:
+        chk.unknown(rid, f"prepare_file_offset_table: the open() call that yields the file object `{sc.fobj}` cannot be located", sc.read)
+    else:
+        mode = arg_of(op, 1, "mode")
+        ok = arg_of(op, None, "encoding") is not None or (isinstance(mode, ast.Constant) and "b" in str(mode.value))
+        chk.ob(rid, "data file opened with a fixed encoding", ok, op, "")
+    return loop, rets, tbl
+
+
 def offset_table_protocol(chk, io_mod, rid):
     """O14.6 / O3.7: writer and reader of the line-offset table agree."""
     if rid not in chk.rules:
@@ -162,96 +353,105 @@ def offset_table_protocol(chk, io_mod, rid):
                  "(offset(L), target - L) for the largest L <= target; the skipper seeks, then reads exactly the remainder; separator and field order agree", 8,
                  "readers start mid-line or at the wrong line: documents duplicated / lost across clients (multi-byte content, files above 50,000 lines)")
     pf = io_mod.func("prepare_file_offset_table")
-    g = cfg_of(pf)
-    rl = [n for n in walk_body(pf) if isinstance(n, ast.Call) and last_attr(n.func) == "readline"]
-    add = [n for n in walk_body(pf) if isinstance(n, ast.Call) and last_attr(n.func) == "add_offset"]
-    inc = [n for n in walk_body(pf) if isinstance(n, ast.AugAssign) and isinstance(n.op, ast.Add) and source.is_const(n.value, 1)]
-    if not add:
-        raise AnchorMissing("add_offset call in prepare_file_offset_table")
-    loop = source.enclosing(add[0], (ast.While, ast.For))
-    ok = len(rl) == 1 and loop is not None and source.enclosing(rl[0], (ast.While, ast.For)) is loop
-    fobj = u(rl[0].func.value) if rl else None
-    chk.ob(rid, "writer reads the data file line by line with readline()", ok, rl[0] if rl else pf, "" if ok else "the file is iterated another way (tell() is not a byte position then)")
-    ok = len(inc) == 1 and loop is not None and source.enclosing(inc[0], (ast.While, ast.For)) is loop and not guards(inc[0], stop=loop) and len(rl) == 1 and g.dominated_by_nodes(g.node_of(inc[0]), [g.node_of(rl[0])])
-    cnt = u(inc[0].target) if inc else None
-    chk.ob(rid, "line counter += 1 once per line read", ok, inc[0] if inc else pf, "")
-    a = add[0]
-    ok = len(a.args) == 2 and u(a.args[0]) == cnt and isinstance(a.args[1], ast.Call) and last_attr(a.args[1].func) == "tell" and u(a.args[1].func.value) == fobj
-    chk.ob(rid, "recorded offset is tell() of the file object being read", ok, a, short(a, 80) + ("" if ok else " — a computed character/byte count is not the position to seek to"))
-    ok = bool(inc) and g.dominated_by_nodes(g.node_of(a), [g.node_of(inc[0])]) and not g.path_exists(g.node_of(a), g.node_of(inc[0]), avoid=[g.node_of(loop)] if loop is not None else [])
-    chk.ob(rid, "offset recorded after the counter was advanced for that line", ok, a, "")
-    # end-of-file test: empty read breaks before counting
-    # role: the local that receives the line read (target of the assignment from readline())
-    lv = [n.targets[0].id for n in walk_body(pf) if isinstance(n, ast.Assign) and rl and n.value is rl[0] and len(n.targets) == 1 and isinstance(n.targets[0], ast.Name)]
-    brk = [n for n in walk_body(pf) if isinstance(n, ast.Break) and source.enclosing(n, (ast.While, ast.For)) is loop] if loop is not None else []
-    ok = bool(brk) and bool(inc) and bool(rl) and bool(lv) and pat.guarded(brk[0], "len(V_l) == 0", "not V_l", "V_l == ''", "len(V_l) < 1", stop=loop, binds={"l": lv[0]}) is not None \
-        and not g.path_exists(g.node_of(inc[0]), g.node_of(brk[0]), avoid=[g.node_of(loop)])
-    chk.ob(rid, "an empty read ends the scan before it is counted", ok, brk[0] if brk else pf, "")
-    rets = [n for n in walk_body(pf) if isinstance(n, ast.Return)]
-    ok = any(u(r.value) == cnt for r in rets) and any(isinstance(r.value, ast.Constant) and r.value.value is None for r in rets)
-    chk.ob(rid, "returns the number of lines read (None when no rebuild was needed)", ok, pf, "")
-    op = [n for n in walk_body(pf) if isinstance(n, ast.Call) and dotted(n.func) == "open"]
-    ok = bool(op) and (arg_of(op[0], None, "encoding") is not None or any(isinstance(x, ast.Constant) and "b" in str(x.value) for x in op[0].args[1:]))
-    chk.ob(rid, "data file opened with a fixed encoding", ok, op[0] if op else pf, "")
+    loop, rets, tbl = offset_table_writer(chk, rid, io_mod, pf)
     FT = io_mod.cls("FileOffsetTable")
     fm = io_mod.methods(FT)
     ao = method(io_mod, FT, "add_offset")
     fc = method(io_mod, FT, "find_closest_offset")
-    params(ao, 3), params(fc, 2)
-    wfmt = [n for n in walk_body(ao) if isinstance(n, ast.JoinedStr)]
-    wf = None
-    if wfmt:
-        parts = wfmt[0].values
-        if len(parts) == 3 and isinstance(parts[1], ast.Constant) and isinstance(parts[0], ast.FormattedValue) and isinstance(parts[2], ast.FormattedValue):
-            wf = (u(parts[0].value), parts[1].value, u(parts[2].value))
-    rd = [n for n in walk_body(fc) if isinstance(n, ast.Assign) and isinstance(n.targets[0], ast.Tuple) and any(isinstance(x, ast.Call) and last_attr(x.func) == "split" for x in ast.walk(n.value))]
-    ok = False
+    ap, tgt = params(ao, 3), params(fc, 2)[1]
     rr = [n for n in walk_body(fc) if isinstance(n, ast.Return)]
-    if rd and not (len(rd[0].targets[0].elts) == 2 and all(isinstance(t, ast.Name) for t in rd[0].targets[0].elts)):
-        raise AnchorMissing("find_closest_offset: the parsed table entry is not unpacked into two names")
-    if wf and rd:
-        sp = [x for x in ast.walk(rd[0].value) if isinstance(x, ast.Call) and last_attr(x.func) == "split"][0]
-        ln, off = [t.id for t in rd[0].targets[0].elts]
-        ap = params_of(ao)
-        # roles of the two parsed fields, by use: the line number is the one compared with the target line, the offset the one that flows into the first element of the returned pair
-        floop_ = source.enclosing(rd[0], ast.For)
-        tgt_ = params_of(fc)[1]
-        is_line = floop_ is not None and any(isinstance(x, ast.Compare) and len(x.ops) == 1 and {u(x.left), u(x.comparators[0])} == {ln, tgt_} for x in ast.walk(floop_))
-        ret0 = u(returned(rr[0]).elts[0]) if rr and isinstance(returned(rr[0]), ast.Tuple) and returned(rr[0]).elts else None
-        is_off = floop_ is not None and ret0 is not None and any(isinstance(x, ast.Assign) and u(x.targets[0]) == ret0 and u(x.value) == off for x in ast.walk(floop_))
-        ok = bool(sp.args) and source.is_const(sp.args[0], wf[1]) and len(ap) == 3 and wf[0] == ap[1] and wf[2] == ap[2] and is_line and is_off
-    chk.ob(rid, "writer format and reader parse agree (separator, field order)", ok, rd[0] if rd else FT, f"writer {wf}")
-    ok = False
-    if rd:
-        ln, off = [t.id for t in rd[0].targets[0].elts]
-        tgt = params_of(fc)[1]
+    fdefs = local_defs(fc)
+    rd = [n for n in walk_body(fc) if isinstance(n, ast.Assign) and len(n.targets) == 1 and isinstance(n.targets[0], ast.Tuple) and source.enclosing(n, ast.For) is not None
+          and any(isinstance(x, ast.Name) and isinstance(source.enclosing(n, ast.For).target, ast.Name) and x.id == source.enclosing(n, ast.For).target.id
+                  for x in ast.walk(source.inline_node(n.value, fdefs)))]
+    ln = off = floop = None
+    if not rd or not (len(rd[0].targets[0].elts) == 2 and all(isinstance(t, ast.Name) for t in rd[0].targets[0].elts)):
+        chk.unknown(rid, "FileOffsetTable.find_closest_offset: the statement that unpacks one table entry (read in a for loop over the table) into two names cannot be located", fc)
+    else:
         floop = source.enclosing(rd[0], ast.For)
-        stores = [n for n in ast.walk(floop) if isinstance(n, ast.Assign) and n is not rd[0] and isinstance(n.targets[0], ast.Name)] if floop is not None else []
-        brks = [n for n in ast.walk(floop) if isinstance(n, ast.Break)] if floop is not None else []
-        vals = {u(s_.value) for s_ in stores}
-        ok = bool(stores) and bool(brks) and all(holds(s_, f"{ln} <= {tgt}", stop=floop) for s_ in stores) and all(holds(b_, f"{ln} > {tgt}", stop=floop) for b_ in brks) \
-            and off in vals and f"{tgt} - {ln}" in vals
-    chk.ob(rid, "reader: largest L <= target, remaining = target - L, stops at the first larger entry", ok, fc if fc else FT, "")
-    inits = {u(n.targets[0]): n.value for n in walk_body(fc) if isinstance(n, ast.Assign) and isinstance(n.targets[0], ast.Name) and source.enclosing(n, ast.For) is None} if fc else {}
+        n0, n1 = [t.id for t in rd[0].targets[0].elts]
+        # roles of the two parsed fields, by use: the line number is the one compared with the target line, the offset the one that flows into the first element of the returned pair
+        ret_t = returned(rr[0]) if rr else None
+        ret0 = u(ret_t.elts[0]) if isinstance(ret_t, ast.Tuple) and ret_t.elts else None
+        cmp_ = [nm for nm in (n0, n1) if any(isinstance(x, ast.Compare) and len(x.ops) == 1 and {u(x.left), u(x.comparators[0])} == {nm, tgt} for x in ast.walk(floop))]
+        flows = [nm for nm in (n0, n1) if ret0 is not None and any(isinstance(x, ast.Assign) and u(x.targets[0]) == ret0 and u(x.value) == nm for x in ast.walk(floop))]
+        if len(cmp_) != 1 or len(flows) != 1 or cmp_ == flows:
+            chk.unknown(rid, f"FileOffsetTable.find_closest_offset: which parsed field is compared with `{tgt}` and which one becomes the returned offset cannot be told (compared: {cmp_}, returned: {flows})", rd[0])
+        else:
+            ln, off = cmp_[0], flows[0]
+            # what the writer prints for (line number 7, offset 1234) is parsed by the reader's own expression (minieval; nothing runs): the field compared with the target must come out as 7,
+            # the field that becomes the offset as 1234 — separator, field order, conversions all decided on the values
+            wexpr = [arg_of(c, 0, None) for c in walk_body(ao) if isinstance(c, ast.Call) and ((dotted(c.func) == "print" and arg_of(c, None, "file") is not None) or last_attr(c.func) == "write") and c.args]
+            try:
+                if len(wexpr) != 1:
+                    raise CannotEval("the print(..., file=...) / write(...) call of add_offset")
+                text = ev(wexpr[0], {ap[1]: 7, ap[2]: 1234})
+                if not isinstance(text, str):
+                    raise CannotEval("the written entry is not a string")
+                try:
+                    got = ev(source.inline_node(rd[0].value, fdefs), {floop.target.id: text.rstrip("\n") + "\n"})
+                    got = list(got) if isinstance(got, (list, tuple)) else None
+                except CannotEval as x:
+                    if not str(x).endswith(("ValueError", "IndexError")):
+                        raise
+                    got = None  # the reader's own conversion / indexing fails on what the writer wrote: the two do not agree
+                if got is None or len(got) != 2:
+                    chk.ob(rid, "writer format and reader parse agree (separator, field order)", False, rd[0], f"writer prints {text!r} for (line 7, offset 1234); the reader's parse does not yield two numbers from it")
+                else:
+                    env_ = dict(zip((n0, n1), got))
+                    ok = env_[ln] == 7 and env_[off] == 1234 and type(env_[ln]) is int and type(env_[off]) is int
+                    chk.ob(rid, "writer format and reader parse agree (separator, field order)", ok, rd[0], f"writer prints {text!r} for (line 7, offset 1234); reader takes line={env_[ln]!r}, offset={env_[off]!r}")
+            except CannotEval as x:
+                chk.unknown(rid, f"FileOffsetTable: the written entry / the reader's parse cannot be evaluated: {x}", rd[0])
+            retn = {u(e_) for e_ in ret_t.elts}
+            stores = [n for n in ast.walk(floop) if isinstance(n, ast.Assign) and n is not rd[0] and isinstance(n.targets[0], ast.Name) and n.targets[0].id in retn]  # stores to the returned locals
+            brks = [n for n in ast.walk(floop) if isinstance(n, ast.Break)]
+            if not stores or not brks:
+                chk.unknown(rid, "FileOffsetTable.find_closest_offset: the search loop is not of the form 'remember the entry while L <= target, stop at the first larger one'", floop)
+            else:
+                vals = {u(s_.value) for s_ in stores}
+                ok = all(holds(s_, f"{ln} <= {tgt}", stop=floop) for s_ in stores) and all(holds(b_, f"{ln} > {tgt}", stop=floop) for b_ in brks) and off in vals and f"{tgt} - {ln}" in vals
+                chk.ob(rid, "reader: largest L <= target, remaining = target - L, stops at the first larger entry", ok, fc, "")
+    inits = {u(n.targets[0]): n.value for n in walk_body(fc) if isinstance(n, ast.Assign) and isinstance(n.targets[0], ast.Name) and source.enclosing(n, ast.For) is None}
     rt_ = returned(rr[0]) if rr else None
-    ok = bool(rr) and isinstance(rt_, ast.Tuple) and len(rt_.elts) == 2 and source.is_const(inits.get(u(rt_.elts[0])), 0) and u(inits.get(u(rt_.elts[1]))) == params_of(fc)[1]
-    chk.ob(rid, "reader defaults: offset 0 and all lines remaining", ok, rr[0] if rr else FT, "")
+    if not (isinstance(rt_, ast.Tuple) and len(rt_.elts) == 2 and all(u(e_) in inits for e_ in rt_.elts)):
+        chk.unknown(rid, "FileOffsetTable.find_closest_offset: the returned (offset, remaining lines) pair of locals initialised before the loop cannot be located", rr[0] if rr else fc)
+    else:
+        ok = source.is_const(inits[u(rt_.elts[0])], 0) and u(inits[u(rt_.elts[1])]) == tgt
+        chk.ob(rid, "reader defaults: offset 0 and all lines remaining", ok, rr[0], "")
     sk = io_mod.func("skip_lines")
-    params(sk, 3)
+    skp = params(sk, 3)
     gs_ = cfg_of(sk)
-    seek = [n for n in walk_body(sk) if isinstance(n, ast.Call) and last_attr(n.func) == "seek"]
-    rls = [n for n in walk_body(sk) if isinstance(n, ast.Call) and last_attr(n.func) == "readline"]
-    un = [n for n in walk_body(sk) if isinstance(n, ast.Assign) and isinstance(n.targets[0], ast.Tuple) and isinstance(n.value, ast.Call) and last_attr(n.value.func) == "find_closest_offset"]
-    ok = False
-    if seek and rls and un and seek[0].args and un[0].value.args and len(un[0].targets[0].elts) == 2 and all(isinstance(t, ast.Name) for t in un[0].targets[0].elts) \
-            and isinstance(seek[0].func, ast.Attribute) and isinstance(rls[0].func, ast.Attribute):
+    seek = [n for n in walk_body(sk) if isinstance(n, ast.Call) and isinstance(n.func, ast.Attribute) and n.func.attr == "seek"]
+    rls = [n for n in walk_body(sk) if isinstance(n, ast.Call) and isinstance(n.func, ast.Attribute) and n.func.attr == "readline"]
+    un = [n for n in walk_body(sk) if isinstance(n, ast.Assign) and isinstance(n.targets[0], ast.Tuple) and isinstance(n.value, ast.Call) and last_attr(n.value.func) == "find_closest_offset"
+          and len(n.targets[0].elts) == 2 and all(isinstance(t, ast.Name) for t in n.targets[0].elts)]
+    lp = source.enclosing(rls[0], ast.For) if rls else None
+    if not (seek and rls and un and seek[0].args) or lp is None or not (isinstance(lp.iter, ast.Call) and dotted(lp.iter.func) == "range" and lp.iter.args and not lp.iter.keywords):
+        chk.unknown(rid, "io.skip_lines: seek(<offset>), the `<offset>, <remaining> = ...find_closest_offset(...)` unpacking and the `for ... in range(...)` loop of readline() calls cannot all be located", sk)
+    else:
         offv, remv = [t.id for t in un[0].targets[0].elts]
-        lp = source.enclosing(rls[0], ast.For)
-        ok = u(seek[0].args[0]) == offv and lp is not None and u(lp.iter) == f"range({remv})" and gs_.dominated_by_nodes(gs_.node_of(rls[0]), [gs_.node_of(seek[0])]) and u(un[0].value.args[0]) == params_of(sk)[2] \
-            and u(seek[0].func.value) == u(rls[0].func.value) == params_of(sk)[1]
-    chk.ob(rid, "skipper: seek(offset) then exactly `remaining` readline() calls on the same file", ok, sk, "")
-    fb = [n for n in walk_body(sk) if isinstance(n, ast.Assign) and isinstance(n.targets[0], ast.Name) and u(n.value) == params_of(sk)[2]]
-    chk.ob(rid, "without a table all lines are skipped one by one from offset 0", bool(fb), sk, "")
+        # the number of readline() calls, decided on values: range(...) over the remaining-lines local has exactly that many elements (every other name := an unrelated number)
+        try:
+            counts = []
+            for k in (0, 1, 5):
+                env_ = {p_: 9 for p_ in skp}
+                env_.update({offv: 4096, remv: k})
+                counts.append(len(range(*[ev(a_, env_) for a_ in lp.iter.args])) == k)
+            exact = all(counts)
+        except (CannotEval, TypeError, ValueError):
+            exact = False
+        fb_ = source.bind_args(un[0].value, fc)
+        ok = u(seek[0].args[0]) == offv and exact and gs_.dominated_by_nodes(gs_.node_of(rls[0]), [gs_.node_of(seek[0])]) and u(fb_.get(tgt)) == skp[2] \
+            and u(seek[0].func.value) == u(rls[0].func.value) == skp[1] and len(rls) == 1
+        chk.ob(rid, "skipper: seek(offset) then exactly `remaining` readline() calls on the same file", ok, sk, "")
+        # without a table: the other definitions of the two locals are offset 0 and every line still to skip
+        alt = [n for n in walk_body(sk) if isinstance(n, ast.Assign) and len(n.targets) == 1 and isinstance(n.targets[0], ast.Name) and n.targets[0].id in (offv, remv)]
+        if not alt:
+            chk.unknown(rid, f"io.skip_lines: the values of `{offv}` / `{remv}` for a data file without offset table cannot be located", sk)
+        else:
+            ok = all((source.is_const(n.value, 0) if n.targets[0].id == offv else u(n.value) == skp[2]) for n in alt) and {n.targets[0].id for n in alt} == {offv, remv}
+            chk.ob(rid, "without a table all lines are skipped one by one from offset 0", ok, alt[0], "")
     # freshness: a table is used only when it exists and is at least as new as the data file; the scan is skipped only for such a table
     iv = fm.get("is_valid")
     ent = fm.get("__enter__")
@@ -266,21 +466,31 @@ def offset_table_protocol(chk, io_mod, rid):
         for n in walk_body(finit):
             if isinstance(n, ast.Assign) and is_self_attr(n.targets[0]) and u(n.value) == first:
                 D = n.targets[0].attr
-    ok = False
-    detail = ""
-    if iv is not None and T and D and T != D:
-        rv = [n for n in walk_body(iv) if isinstance(n, ast.Return)]
-        if len(rv) == 1:
-            cj = conjuncts(returned(rv[0]))
-            has_exists = any(isinstance(c, ast.Call) and u(c.func) == "self.exists" for c in cj)
-            fresh = any(pat.is_(c, f"os.path.getmtime(self.{T}) >= os.path.getmtime(self.{D})", f"os.path.getmtime(self.{T}) > os.path.getmtime(self.{D})") for c in cj)
-            ok = has_exists and fresh and len(cj) == 2
-            detail = u(returned(rv[0]))
-    chk.ob(rid, "table valid iff it exists and its mtime >= the data file's mtime", ok, iv if iv is not None else FT, detail, key=f"{io_mod.relpath}:FileOffsetTable.is_valid:freshness")
-    ivc = [n for n in walk_body(pf) if isinstance(n, ast.Call) and last_attr(n.func) == "is_valid"]
-    ok = len(ivc) == 1 and loop is not None and any(f_ is not None for f_ in [pat.guarded(loop, "not E_t.is_valid()")]) and bool(rets) \
-        and all(pat.guarded(r, "not E_t.is_valid()") is None for r in rets if isinstance(r.value, ast.Constant) and r.value.value is None)
-    chk.ob(rid, "the scan runs iff the table is not valid; None is returned only for a valid table", ok, ivc[0] if ivc else pf, "", key=f"{io_mod.relpath}:prepare_file_offset_table:rebuild-guard")
+    if iv is None or not T or not D or T == D:
+        chk.unknown(rid, "FileOffsetTable: is_valid() / the attributes holding the table's and the data file's path cannot be located", FT)
+    else:
+        # is_valid() evaluated (tables.decide / minieval) on representative worlds: (table exists?, mtime of the table, mtime of the data file); `>=` and `>` are both accepted
+        exists_keys = ["self.exists()"] + [f"{f_}(self.{T})" for f_ in _EXISTS]
+        wrong = []
+        try:
+            for e_, t_, d_, want in ((False, 5, 3, False), (False, 3, 5, False), (True, 5, 3, True), (True, 3, 5, False)):
+                got = bool(fn_result(iv, dict({k: e_ for k in exists_keys}, **{f"os.path.getmtime(self.{T})": t_, f"os.path.getmtime(self.{D})": d_})))
+                if got != want:
+                    wrong.append(f"table {'exists' if e_ else 'missing'}, table mtime {t_}, data mtime {d_}: {'valid' if got else 'invalid'}")
+            chk.ob(rid, "table valid iff it exists and its mtime >= the data file's mtime", not wrong, iv, "; ".join(wrong), key=f"{io_mod.relpath}:FileOffsetTable.is_valid:freshness")
+        except CannotEval as x:
+            chk.unknown(rid, f"FileOffsetTable.is_valid cannot be evaluated: {x}", iv)
+    # role: the table object = the receiver of the add_offset call; the guard of the scan = the explicit / guard-clause conditions around the loop that consult that object
+    if loop is not None and tbl is not None:
+        tbls = {tbl} | {k for k, v in local_defs(pf).items() if isinstance(v, ast.Call) and FT.name in (dotted(v.func) or "").split(".")}  # every local holding a table object of the data file
+        consulted = [c for f_ in pat.fact_nodes(loop) for c in ast.walk(f_) if isinstance(c, ast.Call) and isinstance(c.func, ast.Attribute) and u(c.func.value) in tbls]
+        if not consulted:
+            chk.unknown(rid, f"prepare_file_offset_table: no condition around the scanning loop consults the table object `{tbl}` (when the scan runs cannot be decided)", loop)
+        else:
+            ok = {c.func.attr for c in consulted} == {"is_valid"} and any(pat.guarded(loop, f"not {t_}.is_valid()") is not None for t_ in tbls) and bool(rets) \
+                and all(pat.guarded(r, "not E_t.is_valid()") is None for r in rets if isinstance(r.value, ast.Constant) and r.value.value is None)
+            chk.ob(rid, "the scan runs iff the table is not valid; None is returned only for a valid table", ok, consulted[0],
+                   "" if ok else f"the scan is guarded by {sorted({short(c, 40) for c in consulted})}", key=f"{io_mod.relpath}:prepare_file_offset_table:rebuild-guard")
 
 
 def gdl_has_normal_return(fn) -> bool:
@@ -298,28 +508,38 @@ def line_count_rule(chk, rid, ldr):
     gc = cfg_of(cf)
     cdefs = local_defs(cf)
     lr = [k for k, v in cdefs.items() if isinstance(v, ast.Call) and last_attr(v.func) == "prepare_file_offset_table"]
-    ifs = [n for n in walk_body(cf) if isinstance(n, ast.If)]
-    ifs = [n for n in ifs if lr and any(isinstance(x, ast.Name) and x.id == lr[0] for x in ast.walk(n.test))] or ifs
-    ok = False
-    detail = ""
-    if lr and ifs:
-        # role: v = the local holding the (optional) number of lines read; the statement is evaluated on representative (lines read, expected) pairs: None (no rebuild) is never a
-        # mismatch, a count — 0 included — is one iff it differs from the expected number; the path taken for a mismatch (whichever arm / nesting) removes the table, then raises
-        v = lr[0]
-        en = params_of(cf)[2]
-        detail = f"`{u(ifs[0].test)}`"
-        ok, d_, res = mismatch_outcomes(ifs[0], v, en)
-        if res:
-            hit = res[(7, 6)]
-            truthy = hit.kind == "raise" and res[(7, 7)].kind != "raise" and res[(0, 6)].kind != "raise"
-            ok = ok and hit.kind == "raise" and raises_on_all_paths(gc, [gc.node_of(hit.node)]) and any(isinstance(x, ast.Call) and last_attr(x.func) == "remove_file_offset_table" for s in before_in_block(hit.node) for x in ast.walk(s))
-            if truthy:
-                detail += " tests the optional line count by truthiness: a file with 0 lines skips the comparison"
-            elif d_:
-                detail += " — " + d_
-        else:
-            detail += " " + d_
-    chk.ob(rid, "line-count mismatch (including 0 lines) removes the table and raises", ok, ifs[0] if ifs else cf, detail, key=f"{_L}:DocumentSetPreparator.create_file_offset_table:line-count-check")
+    key = f"{_L}:DocumentSetPreparator.create_file_offset_table:line-count-check"
+    if not lr:
+        chk.unknown(rid, "create_file_offset_table: the local that receives the result of io.prepare_file_offset_table (the optional number of lines read) cannot be located", cf)
+        return
+    ifs = [n for n in walk_body(cf) if isinstance(n, ast.If) and any(isinstance(x, ast.Name) and x.id == lr[0] for x in ast.walk(n.test))]
+    if not ifs:
+        chk.ob(rid, "line-count mismatch (including 0 lines) removes the table and raises", False, cf, f"no test consults the number of lines read `{lr[0]}`: a truncated document file is accepted", key=key)
+        return
+    # role: v = the local holding the (optional) number of lines read; the statement is evaluated on representative (lines read, expected) pairs: None (no rebuild) is never a
+    # mismatch, a count — 0 included — is one iff it differs from the expected number; the path taken for a mismatch (whichever arm / nesting) removes the table, then raises
+    v = lr[0]
+    en = params_of(cf)[2]
+    detail = f"`{u(ifs[0].test)}`"
+    ok, d_, res = mismatch_outcomes(ifs[0], v, en)
+    if not res:
+        chk.unknown(rid, f"create_file_offset_table: the line-count test {detail} cannot be evaluated: {d_}", ifs[0])
+        return
+    hit = res[(7, 6)]
+    truthy = hit.kind == "raise" and res[(7, 7)].kind != "raise" and res[(0, 6)].kind != "raise"
+    # role 'removes the table': a call, with the document file, of one of io's functions that remove the very name the readers open (derived in table_removers, not spelled here)
+    try:
+        io_mod = ldr.repo.module(_I)
+        removers = table_removers(io_mod, TableRoles(io_mod))
+        is_rm = lambda x: io_qualname(ldr, dotted(x.func) or "") in removers and len(x.args) + len(x.keywords) == 1 and u((list(x.args) + [k.value for k in x.keywords])[0]) == params_of(cf)[1]  # noqa: E731
+    except AnchorMissing:
+        is_rm = lambda x: last_attr(x.func) == "remove_file_offset_table"  # noqa: E731
+    ok = ok and hit.kind == "raise" and raises_on_all_paths(gc, [gc.node_of(hit.node)]) and any(isinstance(x, ast.Call) and is_rm(x) for s in before_in_block(hit.node) for x in ast.walk(s))
+    if truthy:
+        detail += " tests the optional line count by truthiness: a file with 0 lines skips the comparison"
+    elif d_:
+        detail += " — " + d_
+    chk.ob(rid, "line-count mismatch (including 0 lines) removes the table and raises", ok, ifs[0], detail, key=key)
 
 
 def size_verification(f, g, ifs, path, exp):
@@ -368,6 +588,362 @@ def subst(e, mapping):
             return source.clone(mapping[n.id]) if isinstance(n.ctx, ast.Load) and n.id in mapping else n
 
     return S().visit(source.clone(e))
+
+
+def helper_functions(mod):
+    """{name: def} of the functions defined at the top level of the module (candidates for 'extracted helper')."""
+    return {f.name: f for f in mod.tree.body if isinstance(f, source.FUNC_TYPES)}
+
+
+def bound_params(args, kws, func):
+    """{parameter of func (self aside): expression} for the positional / keyword arguments of one call as listed by calls_through."""
+    names = own_params(func)
+    out = {}
+    for i, a in enumerate(args):
+        if isinstance(a, ast.Starred):
+            break
+        if i < len(names):
+            out[names[i]] = a
+    for k, v in kws.items():
+        if k in names or k in [x.arg for x in func.args.kwonlyargs]:
+            out[k] = v
+    return out
+
+
+def calls_through(mod, fn, depth=2, cls=None):
+    """[(call, [positional argument expressions], {keyword: expression}, root)] — every call made in fn's own body and, following calls of functions defined at the top level of the same
+    module — and, with cls, methods of that class called as self.m(...) — (extracted helpers) up to `depth` levels, in theirs. The arguments are expressed in fn's terms: a helper's parameters are replaced by the expressions it was called with (its
+    defaults when not passed), its own locals get a name that cannot clash with fn's. root = the call in fn's own body through which the call is reached (the call itself at level 0)."""
+    helpers = helper_functions(mod)
+    methods = mod.methods(cls) if cls is not None else {}
+    out = []
+
+    def sub(e, binding):
+        return e if not binding or isinstance(e, ast.Starred) else subst(e, binding)
+
+    def rec(f, binding, root, d, stack):
+        for c in walk_body(f):
+            if not isinstance(c, ast.Call):
+                continue
+            args = [sub(a, binding) for a in c.args]
+            kws = {k.arg: sub(k.value, binding) for k in c.keywords if k.arg}
+            r = root if root is not None else c
+            out.append((c, args, kws, r))
+            h = helpers.get(c.func.id) if isinstance(c.func, ast.Name) else (methods.get(c.func.attr) if isinstance(c.func, ast.Attribute) and is_self_attr(c.func) else None)
+            if h is None or h in stack or d >= depth:
+                continue
+            a = h.args
+            names = [x.arg for x in a.posonlyargs + a.args]
+            if h.name in methods and methods[h.name] is h and names and names[0] in ("self", "cls"):
+                names = names[1:]
+            b = {}
+            for i, v in enumerate(args):
+                if isinstance(v, ast.Starred):
+                    break
+                if i < len(names):
+                    b[names[i]] = v
+            for k, v in kws.items():
+                if k in names or k in [x.arg for x in a.kwonlyargs]:
+                    b[k] = v
+            for nm, dv in list(zip(names[len(names) - len(a.defaults):], a.defaults)) + [(x.arg, dv) for x, dv in zip(a.kwonlyargs, a.kw_defaults) if dv is not None]:
+                b.setdefault(nm, dv)
+            for x in ast.walk(h):  # the helper's own names (locals, parameters that were not bound) must not be mistaken for names of fn
+                nm = x.id if isinstance(x, ast.Name) and isinstance(x.ctx, ast.Store) else (x.arg if isinstance(x, ast.arg) else None)
+                if nm is not None and nm not in b and nm not in ("self", "cls"):
+                    b[nm] = ast.Name(id=f"{nm}__in_{h.name}", ctx=ast.Load())
+            rec(h, b, r, d + 1, stack + [h])
+
+    rec(fn, {}, None, 0, [fn])
+    return out
+
+
+def removes_file(stmts, path, mod, depth=0):
+    """True / False: the statement list, evaluated for the case 'the file named by the local `path` exists' (every existence test of it is true; tables.decide, nothing runs), removes
+    that file — os.remove / os.unlink of it, directly or through a helper function of the same module that is called with it. None when the statements are beyond the evaluator.
+    (`try: os.remove(p) except FileNotFoundError: pass` is read as its normal path.)"""
+    flat_ = []
+    for s_ in stmts:
+        flat_ += (s_.body + s_.orelse + s_.finalbody) if isinstance(s_, ast.Try) else [s_]
+
+    def atom(n, env):
+        if isinstance(n, ast.Call) and dotted(n.func) in _EXISTS and len(n.args) == 1 and u(n.args[0]) == path:
+            return True
+        return None
+
+    def on_stmt(s_, env, b):
+        return "skip" if is_logging_stmt(s_) else None
+
+    try:
+        o = tables.decide(flat_, atom, {}, on_stmt=on_stmt)
+    except (tables.Unsupported, UnknownAtom, CannotEval):
+        return None
+    helpers = helper_functions(mod)
+    for e in o.effects:
+        if not isinstance(e, ast.Call):
+            continue
+        d = dotted(e.func) or ""
+        if d in _REMOVES and len(e.args) == 1 and u(e.args[0]) == path:
+            return True
+        h = helpers.get(d)
+        if h is not None and depth < 2:
+            for p_, a_ in source.bind_args(e, h).items():
+                if u(a_) == path and removes_file(h.body, p_, mod, depth + 1):
+                    return True
+    return False
+
+
+class Opaque:
+    """stands for a value the evaluator does not look into (a function object / class stored in a dispatch table); only its identity matters."""
+
+    def __init__(self, text):
+        self.text = text
+
+    def __repr__(self):
+        return f"<{self.text}>"
+
+
+def module_tables(mod):
+    """{name: value} of the module-level `NAME = <container>` assignments (dict / list / tuple / set literals, frozenset(...) / set(...) / tuple(...) of one), evaluated by minieval. Dict
+    values and sequence elements that are not literals (function objects, classes, lambdas) become Opaque placeholders: membership tests, .get() and subscripts on such a dispatch
+    table are decided on its literal keys."""
+    def val(e):
+        try:
+            return ev(e, {})
+        except CannotEval:
+            if isinstance(e, (ast.Tuple, ast.List)):
+                vs = [val(x) for x in e.elts]
+                return tuple(vs) if isinstance(e, ast.Tuple) else vs
+            return Opaque(u(e)[:40])
+
+    out = {}
+    for st in mod.tree.body:
+        if not (isinstance(st, ast.Assign) and len(st.targets) == 1 and isinstance(st.targets[0], ast.Name)):
+            continue
+        v = st.value
+        try:
+            if isinstance(v, ast.Dict) and all(k is not None for k in v.keys):
+                out[st.targets[0].id] = {ev(k, {}): val(x) for k, x in zip(v.keys, v.values)}
+            elif isinstance(v, (ast.List, ast.Tuple, ast.Set)) or (isinstance(v, ast.Call) and dotted(v.func) in ("frozenset", "set", "tuple", "list")):
+                out[st.targets[0].id] = ev(v, {})
+        except (CannotEval, TypeError):
+            pass
+    return out
+
+
+def inline_predicates(e, methods, keep=(), depth=0):
+    """fresh copy of the condition e in which every call `self.m(args)` of a method m of the class whose body is (docstring / logging aside) a single `return <expression>` is replaced
+    by that expression over the arguments — an extracted predicate reads like the condition it was extracted from. Methods named in `keep` (the anchors) stay calls."""
+
+    class T(ast.NodeTransformer):
+        def visit_Call(self, n):
+            self.generic_visit(n)
+            if isinstance(n.func, ast.Attribute) and is_self_attr(n.func) and n.func.attr in methods and n.func.attr not in keep and depth < 3 and not any(isinstance(a, ast.Starred) for a in n.args):
+                m = methods[n.func.attr]
+                body = [x for x in m.body if not is_logging_stmt(x) and not (isinstance(x, ast.Expr) and isinstance(x.value, ast.Constant))]
+                if len(body) == 1 and isinstance(body[0], ast.Return) and body[0].value is not None:
+                    return inline_predicates(subst(body[0].value, source.bind_args(n, m)), methods, keep, depth + 1)
+            return n
+
+    return T().visit(source.clone(e))
+
+
+def cond_implies(cond, required) -> bool:
+    """the condition `cond`, over every truth assignment of its atoms (the leaves of its and / or / not structure, at most 10), is true only when each predicate of `required`
+    (atom -> bool: 'this atom states the required fact') has a true atom."""
+    atoms = {}
+    for a in atoms_of(cond):
+        atoms.setdefault(u(a), a)
+    names = sorted(atoms)
+    if len(names) > 10:
+        return False
+    groups = [[t for t in names if r(atoms[t])] for r in required]
+    for vals in itertools.product([False, True], repeat=len(names)):
+        env = dict(zip(names, vals))
+        try:
+            if bool_eval(cond, lambda n: env.get(u(n))) and not all(any(env[t] for t in g_) for g_ in groups):
+                return False
+        except UnknownAtom:
+            return False
+    return True
+
+
+def fn_result(fn, vals):
+    """the value the small function fn returns when the sub-expressions whose text is a key of `vals` have the given representative values: its statements are walked by tables.decide,
+    every test and the returned expression evaluated by minieval with the locals bound on the way substituted (guard clauses, temporaries, either arm order all read the same).
+    CannotEval when a statement / expression is beyond the evaluator. No repository code runs."""
+    cur = {}
+
+    def inl(n):
+        return source.inline_node(n, {k: v for k, v in cur.items() if v is not None})
+
+    def atom(n, env):
+        return bool(eval_with(inl(n), vals))
+
+    def on_stmt(s_, env, b):
+        cur.clear()
+        cur.update(b)
+        return "skip" if is_logging_stmt(s_) else None
+
+    try:
+        o = tables.decide(fn.body, atom, {}, on_stmt=on_stmt)
+    except (tables.Unsupported, UnknownAtom) as e:
+        raise CannotEval(str(e))
+    if o.kind == "return":
+        return None if o.value is None else eval_with(inl(o.value), vals)
+    if o.kind == "fallthrough":
+        return None
+    raise CannotEval(f"{getattr(fn, 'name', '?')} ends with `{o.text()[:60]}`")
+
+
+def returned_later(fn, assign) -> bool:
+    """the local bound by `assign` is bound nowhere else in fn (a `= None` initialisation aside) and some `return <that local>` of fn is reachable from the assignment."""
+    nm = assign.targets[0].id if len(assign.targets) == 1 and isinstance(assign.targets[0], ast.Name) else None
+    if nm is None:
+        return False
+    others = [n for n in walk_body(fn) if isinstance(n, ast.Assign) and n is not assign and any(isinstance(t, ast.Name) and t.id == nm for t in n.targets)]
+    if any(not (isinstance(n.value, ast.Constant) and n.value.value is None) for n in others):
+        return False
+    g = cfg_of(fn)
+    rets = [n for n in walk_body(fn) if isinstance(n, ast.Return) and isinstance(n.value, ast.Name) and n.value.id == nm]
+    return any(g.path_exists(g.node_of(assign), g.node_of(r), edge_ok=g.normal_edge) for r in rets)
+
+
+def handler_outcome(h, vals):
+    """how the except handler h ends when the names / sub-expressions of `vals` have the given values (tables.decide, tests by minieval; logging and other statements without a jump are
+    skipped): a tables.Outcome — raise / return / break / continue / fallthrough. CannotEval when a test that matters cannot be evaluated."""
+    def atom(n, env):
+        return bool(eval_with(n, vals))
+
+    def on_stmt(s_, env, b):
+        return None if any(isinstance(x, _JUMPS) for x in ast.walk(s_)) else "skip"
+
+    try:
+        return tables.decide(h.body, atom, {}, on_stmt=on_stmt)
+    except (tables.Unsupported, UnknownAtom) as e:
+        raise CannotEval(str(e))
+
+
+def verification_contexts(mod, cls, fn, anchor, roles, before=False, always_self=False):
+    """Where a check on the values `roles` ({role: local / parameter name in fn}) made after (before=True: before) the call `anchor` can live: fn itself, and every helper — a method of the
+    same class called as self.m(...), or a function defined at the top level of the module — that a call statement after (before) the anchor hands one of those values to as a plain
+    argument (always_self: every such self.m(...) call statement, whatever it is handed). Except handlers are not looked into.
+    -> ([(function, {role: the value's name in that function}, [if statements to look at])], [call statements handed one of the values that cannot be followed])"""
+    side = (lambda n: n.lineno < anchor.lineno) if before else (lambda n: n.lineno > anchor.lineno)  # noqa: E731
+    in_handler = lambda n: source.enclosing(n, ast.ExceptHandler) is not None and source.enclosing_func(source.enclosing(n, ast.ExceptHandler)) is fn  # noqa: E731
+    out = [(fn, dict(roles), [n for n in walk_body(fn) if isinstance(n, ast.If) and side(n) and not in_handler(n)])]
+    opaque = []
+    methods = mod.methods(cls) if cls is not None else {}
+    helpers = helper_functions(mod)
+    for st in walk_body(fn):
+        if not (isinstance(st, ast.Expr) and isinstance(st.value, ast.Call) and side(st) and not in_handler(st)) or is_logging_stmt(st):
+            continue
+        c = st.value
+        given = list(c.args) + [k.value for k in c.keywords]
+        to_self = isinstance(c.func, ast.Attribute) and is_self_attr(c.func)
+        if not any(isinstance(a, ast.Name) and a.id in roles.values() for a in given) and not (always_self and to_self and c.func.attr in methods):
+            continue
+        h = methods.get(c.func.attr) if to_self else (helpers.get(c.func.id) if isinstance(c.func, ast.Name) else None)
+        if h is None:
+            if any(isinstance(a, ast.Name) and a.id in roles.values() for a in given) and not (dotted(c.func) or "").startswith(("console.", "os.", "io.ensure_dir", "time.")):
+                opaque.append(c)
+            continue
+        b = source.bind_args(c, h)
+        out.append((h, {r: p_ for r, nm in roles.items() for p_, a in b.items() if isinstance(a, ast.Name) and a.id == nm}, [n for n in walk_body(h) if isinstance(n, ast.If)]))
+    return out, opaque
+
+
+def post_checks(chk, rid, mod, cls, fn, anchor, path, exp, inst_missing, inst_size, missing_pats):
+    """the two verifications that follow the call `anchor` (a transfer / a decompression) in the method fn: a raise whose only explicit condition is 'the file `path` is not there', and
+    the comparison of the declared size `exp` with os.path.getsize(path) that raises exactly for a mismatch. They are looked for in fn and in the helpers fn hands the path / the size to
+    after the anchor; found nowhere although everything could be followed = the verification is absent (falsified); an argument handed to code that cannot be followed = not recognised."""
+    ctxs, opaque = verification_contexts(mod, cls, fn, anchor, {"path": path, "exp": exp})
+    # (1) existence
+    hit = None
+    for f_, names, ifs in ctxs:
+        if "path" not in names:
+            continue
+        pats = [p_.format(p=names["path"]) for p_ in missing_pats]
+        ex = [x for n in ifs for x in ast.walk(n) if isinstance(x, ast.Raise) and len(pat.fact_nodes(x, path_sensitive=False)) == 1 and pat.is_(pat.fact_nodes(x, path_sensitive=False)[0], *pats)]
+        if ex:
+            hit = (f_, ex[0])
+            break
+    if hit is not None:
+        gf = cfg_of(hit[0])
+        chk.ob(rid, inst_missing, raises_on_all_paths(gf, [gf.node_of(hit[1])]), hit[1], "")
+    elif opaque:
+        chk.unknown(rid, f"{fn.name}: no test for the missing file `{path}` in the method itself and `{short(opaque[0], 60)}` cannot be followed", opaque[0])
+    else:
+        chk.ob(rid, inst_missing, False, fn, f"no raise under `not os.path.isfile({path})` after the call (the method and the helpers it hands the path to were searched)")
+    # (2) size
+    res = None
+    for f_, names, ifs in ctxs:
+        if "path" in names and "exp" in names:
+            S, ok, detail = size_verification(f_, cfg_of(f_), ifs, names["path"], names["exp"])
+            if S is not None:
+                res = (S, ok, detail)
+                break
+    if res is not None:
+        chk.ob(rid, inst_size, res[1], res[0], res[2])
+    elif opaque:
+        chk.unknown(rid, f"{fn.name}: no comparison of the declared size `{exp}` in the method itself and `{short(opaque[0], 60)}` cannot be followed", opaque[0])
+    else:
+        chk.ob(rid, inst_size, False, fn, f"no test compares `{exp}` with the size on disk (the method and the helpers it hands the path and the size to were searched)")
+
+
+def ev_str(e, env):
+    """minieval.ev extended by what path-splitting code needs: slices of strings / sequences and the pure library functions os.path.splitext / basename / dirname applied to a string
+    (library code on a representative value; no repository code runs). CannotEval for anything else."""
+    import os.path as osp
+
+    def const(v, at):
+        return ast.copy_location(ast.Constant(value=v), at)
+
+    class F(ast.NodeTransformer):
+        def visit_Subscript(self, n):
+            self.generic_visit(n)
+            if isinstance(n.slice, ast.Slice):
+                v = ev(n.value, env)
+                lo, hi, st = (None if x is None else ev(x, env) for x in (n.slice.lower, n.slice.upper, n.slice.step))
+                if isinstance(v, (str, list, tuple)) and all(x is None or (isinstance(x, int) and not isinstance(x, bool)) for x in (lo, hi, st)) and st != 0:
+                    return const(v[lo:hi:st], n)
+                raise CannotEval(f"slice {u(n)[:50]}")
+            return n
+
+        def visit_Call(self, n):
+            self.generic_visit(n)
+            d = dotted(n.func)
+            if d in ("os.path.splitext", "os.path.basename", "os.path.dirname") and len(n.args) == 1 and not n.keywords:
+                v = ev(n.args[0], env)
+                if isinstance(v, str):
+                    return const(getattr(osp, d.rsplit(".", 1)[1])(v), n)
+                raise CannotEval(f"{u(n)[:50]}: not a string")
+            return n
+
+    return ev(F().visit(source.clone(e)), env)
+
+
+def unrolled(stmts):
+    """the statement list with every `for <name> in (<literal>, ...):` loop (no else / break / continue) replaced by one copy of its body per element, the loop variable replaced by
+    the element — a search loop over a small literal table reads like the if-chain it abbreviates. Copies are re-parsed (analysed nodes are never deep-copied)."""
+    out = []
+    for st in stmts:
+        if isinstance(st, ast.For) and isinstance(st.target, ast.Name) and isinstance(st.iter, (ast.Tuple, ast.List)) and not st.orelse and len(st.iter.elts) <= 16 \
+                and all(isinstance(e_, ast.Constant) for e_ in st.iter.elts) and not any(isinstance(x, (ast.Break, ast.Continue)) for b_ in st.body for x in ast.walk(b_)):
+            var = st.target.id
+
+            class R(ast.NodeTransformer):
+                def __init__(self, value):
+                    self.value = value
+
+                def visit_Name(self, n):
+                    return ast.copy_location(ast.Constant(value=self.value), n) if n.id == var and isinstance(n.ctx, ast.Load) else n
+
+            for e_ in st.iter.elts:
+                body = ast.parse("\n".join(ast.unparse(b_) for b_ in st.body)).body
+                out += unrolled([ast.fix_missing_locations(R(e_.value).visit(b_)) for b_ in body])
+        else:
+            out.append(st)
+    return out
 
 
 def own_params(f):
@@ -624,10 +1200,11 @@ def offset_table_publication(chk, repo, io_mod, rid="O14.8"):
             for w in withs:
                 written |= flow.values(attr, w, env)
             ren = []
-            for r in [n for n in walk_body(fn) if isinstance(n, ast.Call) and dotted(n.func) in _RENAMES]:
-                s_, d_ = arg_of(r, 0, "src"), arg_of(r, 1, "dst")
-                if s_ is None or d_ is None:
-                    raise CannotEval(f"arguments of `{short(r, 60)}`")
+            # renames made by the function itself or by a helper function of the module it calls (arguments in this function's terms, position = the call in this function)
+            for c_, a_, k_, r in [t_ for t_ in calls_through(mod, fn) if dotted(t_[0].func) in _RENAMES]:
+                s_, d_ = (a_[0] if len(a_) > 0 else k_.get("src")), (a_[1] if len(a_) > 1 else k_.get("dst"))
+                if s_ is None or d_ is None or isinstance(s_, ast.Starred) or isinstance(d_, ast.Starred):
+                    raise CannotEval(f"arguments of `{short(c_, 60)}`")
                 ren.append((r, flow.values(s_, r, env), flow.values(d_, r, env)))
         except CannotEval as x:
             chk.unknown(rid, f"{where}: a path expression of the offset-table build cannot be evaluated: {x}", call)
@@ -775,9 +1352,13 @@ def recreated_file_invalidates_table(chk, io_mod, ldr, roles, rid="O14.9"):
             names |= {n.targets[0].id for n in walk_body(f) if isinstance(n, ast.Assign) and len(n.targets) == 1 and isinstance(n.targets[0], ast.Name) and isinstance(n.value, ast.Name) and n.value.id in names}
         fdefs = {k: v for k, v in local_defs(f).items() if k not in names}
         env_of = lambda e: eval_with(source.inline_node(e, fdefs), {docv: _REP})  # noqa: E731
-        creators = [c for c in walk_body(f) if isinstance(c, ast.Call) and isinstance(c.func, ast.Attribute) and c.func.attr in ("decompress", "download") and is_self_attr(c.func.value)
-                    and any(isinstance(a, ast.Name) and a.id in names for a in c.args)]
-        builds = [c for c in walk_body(f) if isinstance(c, ast.Call) and last_attr(c.func) == "create_file_offset_table" and c.args and isinstance(c.args[0], ast.Name) and c.args[0].id in names]
+        # calls made by the method itself or through helper methods of the class (arguments in the method's own terms; the CFG position is that of the call in the method's own body)
+        reach_ = calls_through(ldr, f, cls=P)
+        cfo = method(ldr, P, "create_file_offset_table")
+        cdoc = params(cfo, 2)[1]
+        creators = [(c, r_) for c, a_, k_, r_ in reach_ if isinstance(c.func, ast.Attribute) and c.func.attr in ("decompress", "download") and is_self_attr(c.func.value)
+                    and any(isinstance(a, ast.Name) and a.id in names for a in list(a_) + list(k_.values()))]
+        builds = [r_ for c, a_, k_, r_ in reach_ if last_attr(c.func) == "create_file_offset_table" and isinstance(bound_params(a_, k_, cfo).get(cdoc), ast.Name) and bound_params(a_, k_, cfo)[cdoc].id in names]
         if not creators or not builds:
             raise AnchorMissing(f"{name}: calls that (re)create the document file `{docv}` (decompress / download) and the offset-table step")
         # invalidation points: a removal of the table of the document file — direct, through a helper method of the class, or an `if <the table exists>: <removal>` statement
@@ -796,13 +1377,16 @@ def recreated_file_invalidates_table(chk, io_mod, ldr, roles, rid="O14.9"):
         inv_nodes = [x for n in inv for x in g.by_ast.get(id(n), [])]
         try:
             build_nodes = [g.node_of(b) for b in builds]
-            creator_nodes = [g.node_of(c) for c in creators]
+            creator_nodes = [g.node_of(r_) for _, r_ in creators]
         except KeyError as x:
             raise AnchorMissing(f"{name}: {x}")
-        for c, cn in zip(creators, creator_nodes):
+        for (c, r_), cn in zip(creators, creator_nodes):
             ok = bool(inv_nodes) and g.must_pass(cn, inv_nodes, exits=build_nodes, normal_only=True)
             path = None
             if not ok:
+                if r_ is not c:
+                    chk.unknown(rid, f"{name}: `{c.func.attr}` into the document file is reached through `{short(r_, 60)}`; an invalidation inside that helper is not followed", r_)
+                    continue
                 for b in build_nodes:
                     p_ = g.find_path(cn, b, avoid=inv_nodes, edge_ok=g.normal_edge)
                     if p_:
@@ -823,7 +1407,11 @@ def run(chk):
         "the last index; existence and size verification after download and after decompression; the state loop exits only under present-and-expected-size and is followed by the offset "
         "table build whose line-count check uses `is not None`; exhaustive archive dispatch with the library fallback on every path; offset table writer/reader protocol; the offset table is "
         "written under a temporary name and published by one rename after the writing block completed (path expressions evaluated on a representative data-file path); every call that "
-        "(re)creates the document file is followed by the removal of its old offset table before the table step."
+        "(re)creates the document file is followed by the removal of its old offset table before the table step. Roles are located by data flow (arguments bound to the callee's "
+        "parameters, calls followed into helper functions / methods of the same module / class with the arguments expressed in the caller's terms) and decisions are taken on "
+        "representative values (tables.decide + minieval on the extracted tests: size / line-count mismatch tables, retry handler per loop index, extension dispatch incl. module-level "
+        "dispatch tables, splitext on concrete names, the scanning loop per readline() result, is_valid per (exists, mtimes), the written table entry parsed by the reader's own "
+        "expression); a role that cannot be located is reported as not recognised (exit 2), never as a violation."
     )
     chk.not_decided = "archive contents, real network behaviour, crash points inside library calls (a kill between two statements of the offset-table build is covered by the rename protocol O14.8; a torn write inside os.replace is not)."
 
@@ -838,64 +1426,121 @@ def run(chk):
     ddefs = local_defs(dl)
     tmpv = [k for k, v in ddefs.items() if isinstance(v, ast.BinOp) and isinstance(v.op, ast.Add) and u(v.left) == final and isinstance(v.right, ast.Constant)]
     if not tmpv:
+        try:  # any other spelling of <final> + <non-empty suffix> (f-string, format): decided on its value for a representative final path
+            tmpv = [k for k, v in ddefs.items() if any(isinstance(x, ast.Name) and x.id == final for x in ast.walk(v)) and isinstance(ev(v, {final: _REP}), str)
+                    and ev(v, {final: _REP}).startswith(_REP) and len(ev(v, {final: _REP})) > len(_REP)]
+        except CannotEval:
+            tmpv = []
+    if not tmpv:
         raise AnchorMissing("temporary path `local_path + <suffix>` in net.download")
     tmp = tmpv[0]
-    writers = [n for n in walk_body(dl) if isinstance(n, ast.Call) and last_attr(n.func) in ("download_http", "download_from_bucket", "_download_http")]
-    chk.ob("O14.1", "transfer routines located", len(writers) >= 2, dl, f"{[last_attr(w.func) for w in writers]}")
-    for w in writers:
-        passes_final = any(isinstance(a, ast.Name) and a.id == final for a in list(w.args) + [k.value for k in w.keywords])
-        passes_tmp = any(isinstance(a, ast.Name) and a.id == tmp for a in list(w.args) + [k.value for k in w.keywords])
-        chk.ob("O14.1", f"{last_attr(w.func)} writes to the temporary path", passes_tmp and not passes_final, w, short(w, 90))
-    ren = [n for n in walk_body(dl) if isinstance(n, ast.Call) and dotted(n.func) in ("os.rename", "os.replace", "shutil.move")]
-    ok = len(ren) == 1 and [u(a) for a in ren[0].args] == [tmp, final]
-    chk.ob("O14.1", "single rename(tmp, final)", ok, ren[0] if ren else dl, f"{len(ren)} rename(s)")
+    # every call made by download() itself or by a helper function of the module it calls (an extracted `_fetch(url, tmp, ...)`), with the arguments expressed in download()'s terms
+    reach = calls_through(net, dl)
+    is_ = lambda e, name: isinstance(e, ast.Name) and e.id == name  # noqa: E731
+    writers = [(c, a_, k_, r_) for c, a_, k_, r_ in reach if last_attr(c.func) in ("download_http", "download_from_bucket", "_download_http")]
+    if len(writers) < 2:
+        chk.unknown("O14.1", f"net.download: the calls of the transfer routines (download_http / download_from_bucket) cannot be located, found {[last_attr(w[0].func) for w in writers]}", dl)
+    else:
+        chk.ob("O14.1", "transfer routines located", True, dl, f"{[last_attr(w[0].func) for w in writers]}")
+    for w, a_, k_, r_ in writers:
+        given = list(a_) + list(k_.values())
+        passes_final = any(is_(a, final) for a in given)
+        passes_tmp = any(is_(a, tmp) for a in given)
+        chk.ob("O14.1", f"{last_attr(w.func)} writes to the temporary path", passes_tmp and not passes_final, w,
+               short(w, 90) + ("" if r_ is w else f" (reached through `{short(r_, 60)}`: path arguments {[u(a) for a in given if is_(a, tmp) or is_(a, final)]})"))
+    ren = [(c, a_, r_) for c, a_, k_, r_ in reach if dotted(c.func) in _RENAMES]
+    if not ren:
+        chk.unknown("O14.1", "net.download: no rename (os.rename / os.replace / shutil.move) is reached from download(); how the final name is produced cannot be followed", dl)
+    else:
+        ok = len(ren) == 1 and [u(a) for a in ren[0][1]] == [tmp, final]
+        chk.ob("O14.1", "single rename(tmp, final)", ok, ren[0][0], f"{len(ren)} rename(s)")
     # the size check: the (outermost) `if` that compares the expected-size parameter with another value (role: the measured size, which must be getsize(tmp)); what it does for a
     # mismatch / a match is evaluated (tables.decide over representative values), so arm order, nesting and operand order do not matter
     exp = dp[2]
+    # located in download() itself or — an extracted `_verify(tmp, expected)` — in a helper function of the module that a call statement of download() hands the temporary path and the
+    # expected size to; sf / sg / stmp / sexp = that function, its CFG and the two values' names in it, sanchor = the statement of download() the rename has to lie behind
     S, meas = comparing_if([n for n in walk_body(dl) if isinstance(n, ast.If)], exp)
-    ok = False
-    okt, detail, res = (False, "", {}) if S is None else mismatch_outcomes(S, exp, u(meas))
-    if ren and S is not None and res:
-        bad_, good_ = res[(7, 6)], res[(7, 7)]
-        ok = bad_.kind == "raise" and good_.kind != "raise" and raises_on_all_paths(g, [g.node_of(bad_.node)]) and g.dominated_by_nodes(g.node_of(ren[0]), [g.node_of(S)]) \
-            and any(isinstance(x, ast.Call) and dotted(x.func) == "os.remove" and x.args and u(x.args[0]) == tmp for s in before_in_block(bad_.node) for x in ast.walk(s))
-        ok = ok and same_value(meas, expr(f"os.path.getsize({tmp})"), ddefs)
-    chk.ob("O14.1", "rename only behind the size check; mismatch removes tmp and raises", ok, S if S is not None else dl, "")
-    if S is not None:
-        # the check compares with the expected size whenever one is known
-        chk.ob("O14.1", "size compared whenever an expected size is known", okt, S, detail)
-    trys = [n for n in walk_body(dl) if isinstance(n, ast.Try) and any(w in list(ast.walk(n)) for w in writers)]
-    ok = False
-    if trys:
-        T = trys[0]
-        broad = [h for h in T.handlers if h.type is None or last_attr(h.type) == "BaseException"]
+    sf, sg, stmp, sexp, sanchor = dl, g, tmp, exp, S
+    if S is None:
+        for st_ in [x for x in walk_body(dl) if isinstance(x, ast.Expr) and isinstance(x.value, ast.Call) and isinstance(x.value.func, ast.Name) and x.value.func.id in helper_functions(net)]:
+            h_ = helper_functions(net)[st_.value.func.id]
+            hb_ = source.bind_args(st_.value, h_)
+            pt_, pe_ = [k for k, v in hb_.items() if is_(v, tmp)], [k for k, v in hb_.items() if is_(v, exp)]
+            if len(pt_) == 1 and len(pe_) == 1:
+                S, meas = comparing_if([n for n in walk_body(h_) if isinstance(n, ast.If)], pe_[0])
+                if S is not None:
+                    sf, sg, stmp, sexp, sanchor = h_, cfg_of(h_), pt_[0], pe_[0], st_
+                    break
+    if S is None:
+        chk.unknown("O14.1", f"net.download: no `if` of download() (or of a helper it hands `{tmp}` and `{exp}` to) compares the expected size with another value (the size check cannot be located)", dl)
+    else:
+        okt, detail, res = mismatch_outcomes(S, sexp, u(meas))
+        if not res:
+            chk.unknown("O14.1", f"net.download: the size check cannot be evaluated: {detail}", S)
+        elif ren:
+            bad_, good_ = res[(7, 6)], res[(7, 7)]
+            ok = bad_.kind == "raise" and good_.kind != "raise" and raises_on_all_paths(sg, [sg.node_of(bad_.node)]) and g.dominated_by_nodes(g.node_of(ren[0][2]), [g.node_of(sanchor)]) \
+                and (sf is dl or source.enclosing(sanchor, ast.Try) is None)
+            d_ = ""
+            if ok:
+                rm = removes_file(before_in_block(bad_.node), stmp, net)
+                if rm is None:
+                    chk.unknown("O14.1", "net.download: what the size-mismatch arm does before it raises cannot be evaluated", bad_.node)
+                ok, d_ = rm is not False, "" if rm is not False else "the mismatch arm does not remove the temporary file"
+            ok = ok and same_value(meas, expr(f"os.path.getsize({stmp})"), local_defs(sf))
+            chk.ob("O14.1", "rename only behind the size check; mismatch removes tmp and raises", ok, S, d_)
+        if res:
+            # the check compares with the expected size whenever one is known
+            chk.ob("O14.1", "size compared whenever an expected size is known", okt, S, detail)
+    roots = [r_ for _, _, _, r_ in writers]
+    trys = [n for n in walk_body(dl) if isinstance(n, ast.Try) and any(any(x is r_ for x in ast.walk(n)) for r_ in roots)]
+    broad = [h for t_ in trys for h in t_.handlers if h.type is None or last_attr(h.type) == "BaseException"]
+    if writers and not trys:
+        chk.ob("O14.1", "broad handler removes tmp and re-raises", False, dl, "the transfer is not inside a try statement: an interrupted transfer leaves the temporary file behind")
+    elif writers:
+        ok, d_ = False, "no `except BaseException` / bare except around the transfer"
         if broad:
             h = broad[0]
-            rm = any(isinstance(x, ast.Call) and dotted(x.func) == "os.remove" and u(x.args[0]) == tmp for x in ast.walk(h))
             hn = g.by_ast.get(id(h), [])
-            ok = rm and bool(hn) and all(g.exit.id not in g.reachable([x]) for x in hn) and isinstance(h.body[-1], ast.Raise) and h.body[-1].exc is None
-    chk.ob("O14.1", "broad handler removes tmp and re-raises", ok, trys[0] if trys else dl, "")
-    opens_final = [n for n in walk_body(dl) if isinstance(n, ast.Call) and dotted(n.func) == "open" and u(n.args[0]) == final]
+            rm = removes_file(h.body, tmp, net)
+            if rm is None:
+                chk.unknown("O14.1", "net.download: what the broad handler around the transfer does cannot be evaluated", h)
+            ok = rm is not False and bool(hn) and all(g.exit.id not in g.reachable([x]) for x in hn) and isinstance(h.body[-1], ast.Raise) and h.body[-1].exc is None
+            d_ = "" if ok else ("the handler does not remove the temporary file" if rm is False else "the handler does not end in a bare `raise`")
+        chk.ob("O14.1", "broad handler removes tmp and re-raises", ok, trys[0], d_)
+    opens_final = [c for c, a_, k_, r_ in reach if dotted(c.func) == "open" and a_ and is_(a_[0], final)]
     chk.ob("O14.1", "the final name is never opened for writing here", not opens_final, opens_final[0] if opens_final else dl, "")
-    # the size the download is verified against is the DECLARED one; the transfer's own Content-Length may stand in only when nothing was declared
+    # the size the download is verified against is the DECLARED one; the transfer's own Content-Length may stand in only when nothing was declared.
+    # role 'declared size' of each transfer routine, by data flow: the parameter that receives download()'s expected-size parameter (through download_http for _download_http)
+    def size_param(fname):
+        for c, a_, k_, r_ in reach:
+            if last_attr(c.func) == fname and net.index().get(fname) is not None:
+                f_ = net.func(fname)
+                names = params_of(f_)
+                got = [names[i] for i, a in enumerate(a_) if i < len(names) and is_(a, exp)] + [k for k, v in k_.items() if is_(v, exp)]
+                if len(got) == 1:
+                    return got[0]
+        cand = [p_ for p_ in params_of(net.func(fname)) if "size" in p_]  # not reached from download() with the size as a plain argument: fall back to the parameter's name
+        if len(cand) != 1:
+            raise AnchorMissing(f"expected-size parameter of {fname}")
+        return cand[0]
+
     dh = net.func("_download_http")
-    ep = [p_ for p_ in params_of(dh) if "size" in p_]
-    if not ep:
-        raise AnchorMissing("expected-size parameter of _download_http")
-    esz = ep[0]
+    esz = size_param("_download_http")
     ow = [n for n in walk_body(dh) if isinstance(n, (ast.Assign, ast.AugAssign)) and any(isinstance(t, ast.Name) and t.id == esz for t in (n.targets if isinstance(n, ast.Assign) else [n.target]))]
     for n in ow:
         ok = pat.guarded(n, f"{esz} is None") is not None
         chk.ob("O14.1", "a declared expected size is never replaced by the response's own Content-Length", ok, n,
                short(n, 70) + ("" if ok else " — a truncated but self-consistent response passes the size check and is renamed to the final name"), key=f"{_N}:_download_http:overwrite-expected-size")
     rets_ = [n for n in walk_body(dh) if isinstance(n, ast.Return) and n.value is not None]
-    chk.ob("O14.1", "the transfer returns the size to verify against (declared, else Content-Length)", bool(rets_) and all(u(r.value) == esz for r in rets_), rets_[0] if rets_ else dh, "")
+    chk.ob("O14.1", "the transfer returns the size to verify against (declared, else Content-Length)", bool(rets_) and all(u(returned(r)) == esz for r in rets_) and gdl_has_normal_return(dh),
+           rets_[0] if rets_ else dh, "")
 
     # the bucket transfer cannot learn a size from the transfer itself: it hands back the DECLARED size, so that net.download compares the bytes on disk with it before renaming
     dfb = net.func("download_from_bucket")
-    bsz = [p_ for p_ in params_of(dfb) if "size" in p_]
+    bsz = size_param("download_from_bucket")
     brets = [n for n in walk_body(dfb) if isinstance(n, ast.Return)]
-    ok = bool(bsz) and bool(brets) and all(r.value is not None and u(returned(r)) == bsz[0] for r in brets) and gdl_has_normal_return(dfb)
+    ok = bool(brets) and all(r.value is not None and u(returned(r)) == bsz for r in brets) and gdl_has_normal_return(dfb)
     chk.ob("O14.1", "the bucket transfer returns the declared size to verify against", ok, brets[0] if brets else dfb,
            f"returns {[u(r.value) if r.value is not None else None for r in brets]}" + ("" if ok else " — the caller receives None, skips the size comparison and renames a truncated download to the final name"),
            key=f"{_N}:download_from_bucket:returns-declared-size")
@@ -905,9 +1550,12 @@ def run(chk):
              "(status domain {200,204,299,300,304,399,400,404,500})", 12,
              "a dropped connection aborts at once / retries forever; a 3xx/4xx body is stored as the data file")
     dh = net.func("download_http")
-    loops = [n for n in walk_body(dh) if isinstance(n, ast.For)]
+    dhh = net.func("_download_http")
+    # role: the retry loop = the for loop of download_http that contains the call of the transfer (_download_http)
+    tcalls = [n for n in walk_body(dh) if isinstance(n, ast.Call) and last_attr(n.func) == "_download_http"]
+    loops = [n for n in walk_body(dh) if isinstance(n, ast.For) and any(any(x is c for x in ast.walk(n)) for c in tcalls)]
     if not loops:
-        raise AnchorMissing("retry loop in download_http")
+        raise AnchorMissing("retry loop (a for loop around the _download_http call) in download_http")
     L = loops[0]
     # the number of attempts, decided on its value: module-level literal constants are bound (whether the loop names one or, after constant propagation N9, holds the literal)
     menv = {}
@@ -918,53 +1566,54 @@ def run(chk):
             except (ValueError, SyntaxError):
                 pass
     attempts = None
-    if isinstance(L.iter, ast.Call) and dotted(L.iter.func) == "range" and len(L.iter.args) == 1:
+    if isinstance(L.iter, ast.Call) and dotted(L.iter.func) == "range" and L.iter.args and not L.iter.keywords:
         try:
-            attempts = eval_with(L.iter.args[0], dict(menv))
-        except CannotEval:
+            attempts = len(range(*[eval_with(a, dict(menv)) for a in L.iter.args]))
+        except (CannotEval, TypeError, ValueError):
             attempts = None
+    if attempts is None:
+        chk.unknown("O14.2", f"download_http: the number of attempts `{u(L.iter)}` of the retry loop cannot be evaluated", L)
     ok = isinstance(attempts, int) and not isinstance(attempts, bool) and 2 <= attempts < 1000
-    chk.ob("O14.2", "range(HTTP_DOWNLOAD_RETRIES + 1)", ok, L, f"{u(L.iter)} = {attempts} attempt(s)" + ("" if ok else " — the transfer is not retried at all (or the count cannot be evaluated)"))
-    const = ast.Constant(value=attempts - 1) if ok else None
-    chk.ob("O14.2", "retry constant is a positive integer", ok and attempts - 1 > 0, L, "")
-    T = [n for n in L.body if isinstance(n, ast.Try)]
-    ok = False
-    if T and not T[0].handlers:
-        raise AnchorMissing("except clause of the retry loop in download_http")
-    if T:
-        t = T[0]
-        tb = [x for x in t.body if not is_logging_stmt(x)] or t.body
-        # the attempt is `return _download_http(...)` (possibly through a temporary bound just before the return) and nothing else
-        tcall = returned(tb[-1]) if isinstance(tb[-1], ast.Return) and len(tb) == (1 if returned(tb[-1]) is tb[-1].value else 2) else None
-        ok = isinstance(tcall, ast.Call) and last_attr(tcall.func) == "_download_http"
-        chk.ob("O14.2", "attempt returns the transfer's result", ok, tb[0], "")
+    if attempts is not None:
+        chk.ob("O14.2", "range(HTTP_DOWNLOAD_RETRIES + 1)", ok, L, f"{u(L.iter)} = {attempts} attempt(s)" + ("" if ok else " — the transfer is not retried at all"))
+        chk.ob("O14.2", "retry constant is a positive integer", ok and attempts - 1 > 0, L, "")
+    tc = tcalls[0]
+    t = source.enclosing(tc, ast.Try)
+    if t is None or not any(x is t for x in ast.walk(L)) or not t.handlers:
+        chk.unknown("O14.2", "download_http: the try / except around the transfer inside the retry loop cannot be located", L)
+    elif not (isinstance(L.target, ast.Name) and isinstance(L.iter, ast.Call) and dotted(L.iter.func) == "range"):
+        chk.unknown("O14.2", "download_http: the retry loop is not `for <index> in range(...)`", L)
+    else:
+        # the attempt hands the transfer's result (the size to verify against) back: returned at once (possibly through a temporary), or kept in a local that is returned later
+        st_ = source.enclosing_stmt(tc)
+        if isinstance(st_, ast.Return) and returned(st_) is tc or (isinstance(st_, ast.Assign) and st_.value is tc and isinstance(source.parent(st_), (ast.Try, ast.For, ast.If)) and returned_later(dh, st_)):
+            chk.ob("O14.2", "attempt returns the transfer's result", True, st_, "")
+        elif isinstance(st_, ast.Expr) and st_.value is tc:
+            chk.ob("O14.2", "attempt returns the transfer's result", False, st_, "the size reported by the transfer is discarded: an undeclared size is never verified against Content-Length")
+        else:
+            chk.unknown("O14.2", f"download_http: what becomes of the transfer's result in `{short(st_, 70)}` cannot be followed", st_)
         names = sorted(last_attr(e) or "<any>" for h in t.handlers for e in (h.type.elts if isinstance(h.type, ast.Tuple) else [h.type]))
         chk.ob("O14.2", "retry only for ProtocolError / ReadTimeoutError", names == ["ProtocolError", "ReadTimeoutError"], t, f"{names}")
-        h = t.handlers[0]
-        if not isinstance(L.target, ast.Name):
-            raise AnchorMissing("retry loop variable in download_http")
         iv = L.target.id
-        # the first statement of the handler (logging aside) is an `if` whose test, evaluated for every index of the loop, is true exactly at the last one, and whose true arm re-raises at once
-        hb = [x for x in h.body if not is_logging_stmt(x)]
-        ok = False
-        detail = ""
-        if hb and isinstance(hb[0], ast.If) and isinstance(const, ast.Constant) and isinstance(const.value, int) and not isinstance(const.value, bool) and 0 < const.value < 1000:
-            N = const.value
+        if isinstance(attempts, int) and 2 <= attempts < 1000:
+            # every handler, evaluated (tables.decide / minieval) for every index the loop takes: it re-raises exactly at the last one, and goes on to the next attempt before
             try:
-                tv = [bool(eval_with(hb[0].test, dict(menv, **{iv: k}))) for k in range(N + 1)]
-                # whichever arm starts (logging aside) with the bare re-raise must be the one taken exactly at the last index
-                arm_t = [x for x in hb[0].body if not is_logging_stmt(x)]
-                arm_f = [x for x in hb[0].orelse if not is_logging_stmt(x)]
-                bare = lambda a: bool(a) and isinstance(a[0], ast.Raise) and a[0].exc is None  # noqa: E731
-                ok = (bare(arm_t) and tv == [k == N for k in range(N + 1)]) or (bare(arm_f) and not bare(arm_t) and tv == [k != N for k in range(N + 1)])
-                detail = "" if ok else f"`{u(hb[0].test)}` over {iv} = 0..{N}: {tv}"
+                idx = list(range(*[eval_with(a, dict(menv)) for a in L.iter.args]))
+                wrong = []
+                for h in t.handlers:
+                    for k in idx:
+                        o = handler_outcome(h, dict(menv, **{iv: k}))
+                        reraise = o.kind == "raise" and (o.value is None or (h.name and u(o.value) == h.name))
+                        if k == idx[-1] and not reraise:
+                            wrong.append(f"{iv}={k} (last attempt): `{o.text()[:40]}` — the error of the last attempt is swallowed")
+                        elif k != idx[-1] and o.kind not in ("fallthrough", "continue"):
+                            wrong.append(f"{iv}={k}: `{o.text()[:40]}` — no further attempt")
+                chk.ob("O14.2", "re-raise on the last index (before anything else)", not wrong, t.handlers[0], "; ".join(wrong[:3]))
             except CannotEval as e:
-                detail = f"cannot evaluate `{u(hb[0].test)}`: {e}"
-        chk.ob("O14.2", "re-raise on the last index (before anything else)", ok, h, detail)
-        a0 = tcall.args if isinstance(tcall, ast.Call) else []
-        ok = [u(a) for a in a0[:3]] == params_of(dh)[:3]
-        chk.ob("O14.2", "the same url / path / expected size are used on every attempt", ok, tb[0], "")
-    dhh = net.func("_download_http")
+                chk.unknown("O14.2", f"download_http: the handler of the retry loop cannot be evaluated over the loop's indices: {e}", t.handlers[0])
+        b_ = source.bind_args(tc, dhh)
+        ok = [u(b_.get(p_)) for p_ in params_of(dhh)[:3]] == params_of(dh)[:3]
+        chk.ob("O14.2", "the same url / path / expected size are used on every attempt", ok, st_, "")
     st = [n for n in walk_body(dhh) if isinstance(n, ast.If) and ".status" in u(n.test)]
     if not st:
         raise AnchorMissing("status test in _download_http")
@@ -983,11 +1632,18 @@ def run(chk):
         if rejected:
             reached[status] = o.node
         chk.ob("O14.2", f"HTTP {status} {'raises' if want else 'is accepted'}", rejected == want, st[0], f"`{u(st[0].test)}` -> {o.text()[:60]}", key=f"{_N}:_download_http:status:{status}")
-    ok = bool(reached) and all(r_.exc is not None and "HTTPError" in u(r_.exc) for r_ in reached.values())
-    chk.ob("O14.2", "a rejected status raises HTTPError before any byte is written", ok and not any(isinstance(x, ast.Call) and last_attr(x.func) == "write" and x.lineno < st[0].lineno for x in walk_body(dhh)), st[0], "")
+    if reached:
+        ok = all(r_.exc is not None and "HTTPError" in u(r_.exc) for r_ in reached.values())
+        wn = [gd.node_of(x) for x in walk_body(dhh) if isinstance(x, ast.Call) and last_attr(x.func) == "write"]
+        # no write is reachable before the status statement: every write of the function lies behind it
+        ok = ok and all(gd.dominated_by_nodes(w_, [gd.node_of(st[0])]) for w_ in wn)
+        chk.ob("O14.2", "a rejected status raises HTTPError before any byte is written", ok, st[0], "")
     rq = [n for n in ast.walk(dhh) if isinstance(n, ast.Call) and last_attr(n.func) == "_request"]
-    ecl = arg_of(rq[0], None, "enforce_content_length") if rq else None
-    chk.ob("O14.2", "short bodies are detected (enforce_content_length)", ecl is not None and source.is_const(ecl, True), rq[0] if rq else dhh, "")
+    if not rq:
+        chk.unknown("O14.2", "_download_http: the _request(...) call cannot be located", dhh)
+    else:
+        ecl = arg_of(rq[0], None, "enforce_content_length")
+        chk.ob("O14.2", "short bodies are detected (enforce_content_length)", ecl is not None and source.is_const(ecl, True), rq[0], "")
 
     # ---- O14.3 verification dominates use -----------------------------------------------------------------------------------------------------------------
     chk.rule("O14.3", "downloader: existence and size tests after the transfer, both raising; HTTP and URL errors converted to data errors (never swallowed); decompressor: existence and size "
@@ -1000,7 +1656,8 @@ def run(chk):
     if not nd:
         raise AnchorMissing("net.download call in Downloader.download")
     ddp = params(dd, 4)
-    ok = [u(a) for a in nd[0].args[1:3]] == [ddp[2], ddp[3]]
+    nb = source.bind_args(nd[0], dl)  # by the parameters of net.download (positional or keyword)
+    ok = [u(nb.get(dp[1])), u(nb.get(dp[2]))] == [ddp[2], ddp[3]]
     chk.ob("O14.3", "transfer called with the target path and the declared size", ok, nd[0], short(nd[0], 90))
     tr = source.enclosing(nd[0], ast.Try)
     if tr is not None:
@@ -1008,35 +1665,40 @@ def run(chk):
             hn = gdd.by_ast.get(id(h), [])
             ok = bool(hn) and all(gdd.exit.id not in gdd.reachable([x]) for x in hn) and any(isinstance(x, ast.Raise) and x.exc is not None and "DataError" in u(x.exc) for x in ast.walk(h))
             chk.ob("O14.3", f"`except {u(h.type)}` converts to a data error on every path", ok, h, "")
-    post = [n for n in source.flat(dd.body) if isinstance(n, ast.If) and n.lineno > nd[0].lineno]
-    # a raise after the transfer whose only explicit guard fact is "the file is not there" (arm / polarity / guard-clause vs if-else form do not matter)
-    ex = [x for n in post for x in ast.walk(n) if isinstance(x, ast.Raise) and [f_ for f_ in pat.fact_nodes(x, path_sensitive=False)
-          if pat.is_(f_, f"not os.path.isfile({ddp[2]})", f"not os.path.exists({ddp[2]})")] and len(pat.fact_nodes(x, path_sensitive=False)) == 1]
-    ok = bool(ex) and raises_on_all_paths(gdd, [gdd.node_of(ex[0])])
-    chk.ob("O14.3", "downloader: missing file after the transfer raises", ok, ex[0] if ex else dd, "")
-    S, ok, detail = size_verification(dd, gdd, post, ddp[2], ddp[3])
-    chk.ob("O14.3", "downloader: size mismatch after the transfer raises", ok, S if S is not None else dd, detail)
-    # a raise that is reached exactly when the base URL is empty / offline mode is on, before the transfer (guard facts: polarity- and arm-insensitive)
-    pre = [x for n in source.flat(dd.body) if isinstance(n, ast.If) and n.lineno < nd[0].lineno for x in ast.walk(n) if isinstance(x, ast.Raise) and x.lineno < nd[0].lineno]
+    post_checks(chk, "O14.3", ldr, D, dd, nd[0], ddp[2], ddp[3], "downloader: missing file after the transfer raises", "downloader: size mismatch after the transfer raises",
+                ("not os.path.isfile({p})", "not os.path.exists({p})"))
+    # a raise that is reached exactly when the base URL is empty / offline mode is on, before the transfer (guard facts: polarity- and arm-insensitive); a helper method called before the
+    # transfer with the base URL is looked into as well
+    ctxs, opaque = verification_contexts(ldr, D, dd, nd[0], {"url": ddp[1]}, before=True, always_self=True)
     xf = lambda x: pat.fact_nodes(x, path_sensitive=False)  # noqa: E731 - the explicit branch conditions of the raise
-    tests = {u(f_) for x in pre for f_ in xf(x)}
-    ok = any(xf(x) and all(pat.is_(f_, f"not {ddp[1]}") for f_ in xf(x)) and raises_on_all_paths(gdd, [gdd.node_of(x)]) for x in pre) \
-        and any(xf(x) and all(pat.is_(f_, "self.offline") for f_ in xf(x)) and raises_on_all_paths(gdd, [gdd.node_of(x)]) for x in pre)
-    chk.ob("O14.3", "no base URL / offline mode raise before any transfer", ok, pre[0] if pre else dd, f"{sorted(tests)}")
+    found = {"url": None, "offline": None}
+    tests = set()
+    for f_, names, ifs in ctxs:
+        gf = cfg_of(f_)
+        for x in [x for n in ifs for x in ast.walk(n) if isinstance(x, ast.Raise) and (f_ is not dd or x.lineno < nd[0].lineno)]:
+            tests |= {u(t_) for t_ in xf(x)}
+            if not xf(x) or not raises_on_all_paths(gf, [gf.node_of(x)]):
+                continue
+            if "url" in names and all(pat.is_(t_, f"not {names['url']}") for t_ in xf(x)):
+                found["url"] = found["url"] or x
+            if all(pat.is_(t_, "self.offline") for t_ in xf(x)):
+                found["offline"] = found["offline"] or x
+    if all(found.values()):
+        chk.ob("O14.3", "no base URL / offline mode raise before any transfer", True, found["url"], f"{sorted(tests)}")
+    elif opaque:
+        chk.unknown("O14.3", f"Downloader.download: the base-URL / offline guards are not in the method itself and `{short(opaque[0], 60)}` cannot be followed", opaque[0])
+    else:
+        chk.ob("O14.3", "no base URL / offline mode raise before any transfer", False, dd, f"guards found before the transfer: {sorted(tests)}")
     DC = ldr.cls("Decompressor")
     dc = method(ldr, DC, "decompress")
-    gdc = cfg_of(dc)
     dcp = params(dc, 4)
     idc = [n for n in walk_body(dc) if isinstance(n, ast.Call) and dotted(n.func) == "io.decompress"]
-    post = [n for n in source.flat(dc.body) if isinstance(n, ast.If) and idc and n.lineno > idc[0].lineno]
-    ex = [x for n in post for x in ast.walk(n) if isinstance(x, ast.Raise) and [f_ for f_ in pat.fact_nodes(x, path_sensitive=False) if pat.is_(f_, f"not os.path.isfile({dcp[2]})")]
-          and len(pat.fact_nodes(x, path_sensitive=False)) == 1]
-    ok = bool(ex) and raises_on_all_paths(gdc, [gdc.node_of(ex[0])])
-    chk.ob("O14.3", "decompressor: missing document file raises", ok, ex[0] if ex else dc, "")
-    S, ok, detail = size_verification(dc, gdc, post, dcp[2], dcp[3])
-    chk.ob("O14.3", "decompressor: size mismatch raises", ok, S if S is not None else dc, detail)
-    ok = bool(idc) and u(idc[0].args[0]) == dcp[1]
-    chk.ob("O14.3", "decompressor works on the given archive", ok, idc[0] if idc else dc, "")
+    if not idc:
+        raise AnchorMissing("io.decompress call in Decompressor.decompress")
+    post_checks(chk, "O14.3", ldr, DC, dc, idc[0], dcp[2], dcp[3], "decompressor: missing document file raises", "decompressor: size mismatch raises", ("not os.path.isfile({p})",))
+    ib = source.bind_args(idc[0], io_.func("decompress"))
+    ok = u(ib.get(params(io_.func("decompress"), 1)[0])) == dcp[1]
+    chk.ob("O14.3", "decompressor works on the given archive", ok, idc[0], "")
 
     # ---- O14.4 state loop ---------------------------------------------------------------------------------------------------------------------------------
     chk.rule("O14.4", "prepare loop exits by break only under present and expected size; the offset-table step follows every normal loop exit (bundled variant: dominates `return True`); a line-count "
@@ -1052,72 +1714,146 @@ def run(chk):
     WL = wl[0]
     docv, archv, dsv = path_roles(pds)
     brks = [n for n in ast.walk(WL) if isinstance(n, ast.Break) and source.enclosing(n, (ast.While, ast.For)) is WL]
-    ok = len(brks) == 1
-    if ok:
-        # the facts that hold at the break (guard facts: arm / polarity / operand order do not matter) are exactly: present, and of the expected (uncompressed) size
-        fs = pat.fact_nodes(brks[0], stop=WL)
-        szf = [b_ for b_ in (pat.match(f_, f"self.has_expected_size({docv}, E_s)") for f_ in fs) if b_ is not None]
-        ok = len(fs) == 2 and any(pat.is_(f_, f"self.is_locally_available({docv})") for f_ in fs) and len(szf) == 1 and "uncompressed_size_in_bytes" in szf[0]["s"]
-    chk.ob("O14.4", "loop exits only when the document file is present and has the expected size", ok, brks[0] if brks else WL, "")
-    chk.ob("O14.4", "the loop has no other exit (while True, no return)", isinstance(WL.test, ast.Constant) and WL.test.value is True and not any(isinstance(x, ast.Return) for x in ast.walk(WL)), WL, "")
-    ot = [n for n in walk_body(pds) if isinstance(n, ast.Call) and last_attr(n.func) == "create_file_offset_table"]
-    ok = bool(ot) and WL not in list(source.ancestors(ot[0])) and gp.must_pass(gp.node_of(WL), [gp.node_of(ot[0])], normal_only=True) and len(ot[0].args) == 2 and u(ot[0].args[0]) == docv and u(ot[0].args[1]).endswith(".number_of_lines")
-    chk.ob("O14.4", "offset table built after the loop on every normal exit", ok, ot[0] if ot else pds, "")
+    # the normal exits of the loop and the condition under which each is taken: the negated loop test (`while not <done>:`) and every break with the facts that hold there (explicit
+    # branches and passed guard clauses; predicates extracted into a one-expression method of the class are looked through). Decided on truth values: whenever the exit condition
+    # holds, "the document file is present" and "it has the declared uncompressed size" hold — arm / polarity / operand order / extra conjuncts do not matter
+    exits = []
+    if not (isinstance(WL.test, ast.Constant) and WL.test.value is True):
+        exits.append((WL, negate(WL.test)))
+    for b_ in brks:
+        fs = pat.fact_nodes(b_, stop=WL)
+        exits.append((b_, ast.BoolOp(op=ast.And(), values=list(fs)) if len(fs) > 1 else (fs[0] if fs else ast.Constant(value=True))))
+    is_present = lambda a: pat.is_(a, f"self.is_locally_available({docv})")  # noqa: E731
+
+    def is_sized(a):
+        m = pat.match(a, f"self.has_expected_size({docv}, E_s)")
+        return m is not None and "uncompressed_size_in_bytes" in m["s"]
+
+    if not exits:
+        chk.unknown("O14.4", "prepare_document_set: the state loop has no normal exit (neither a loop condition nor a break)", WL)
+    else:
+        wrong, opaque = [], []
+        for n_, cond in exits:
+            cond = inline_predicates(cond, pm, keep=("is_locally_available", "has_expected_size"))
+            if cond_implies(cond, [is_present, is_sized]):
+                continue
+            # a predicate over the document file that cannot be looked into (a method with more than a return expression, another object's method): not recognised, not wrong
+            other = [a for a in atoms_of(cond) if not is_present(a) and not is_sized(a) and any(isinstance(x, ast.Call) for x in ast.walk(a)) and any(isinstance(x, ast.Name) and x.id in (docv, dsv) for x in ast.walk(a))
+                     and not pat.is_(a, f"{dsv}.has_compressed_corpus()", f"{dsv}.has_uncompressed_corpus()", "self.is_locally_available(E_x)", "self.has_expected_size(E_x, E_y)")]
+            (opaque if other else wrong).append((n_, cond))
+        if opaque and not wrong:
+            chk.unknown("O14.4", f"prepare_document_set: the exit condition `{short(opaque[0][1], 90)}` of the state loop uses a predicate over the document file that cannot be looked into", opaque[0][0])
+        else:
+            chk.ob("O14.4", "loop exits only when the document file is present and has the expected size", not wrong, wrong[0][0] if wrong else (brks[0] if brks else WL),
+                   "" if not wrong else f"the loop is left under `{short(wrong[0][1], 100)}`, which does not imply a present document file of the declared uncompressed size")
+    chk.ob("O14.4", "the loop has no other exit (while True, no return)", not any(isinstance(x, ast.Return) for x in source.walk_local(WL)), WL, "")
+    # every call prepare_document_set makes, directly or through helper methods of the class / functions of the module, with the arguments in prepare_document_set's own terms
+    preach = calls_through(ldr, pds, cls=P)
+    in_loop = lambda n: any(x is WL for x in source.ancestors(n))  # noqa: E731
+    cfo = method(ldr, P, "create_file_offset_table")
+    ot = [(c, bound_params(a_, k_, cfo), r_) for c, a_, k_, r_ in preach if last_attr(c.func) == "create_file_offset_table" and not in_loop(r_)]
+    if not ot:
+        chk.ob("O14.4", "offset table built after the loop on every normal exit", False, pds, "no call of create_file_offset_table outside the state loop (the method and the helpers it calls were searched)")
+    else:
+        c, b_, r_ = ot[0]
+        cp = params(cfo, 3)
+        ok = gp.must_pass(gp.node_of(WL), [gp.node_of(x[2]) for x in ot], normal_only=True) and u(b_.get(cp[1])) == docv and u(b_.get(cp[2])).endswith(".number_of_lines")
+        chk.ob("O14.4", "offset table built after the loop on every normal exit", ok, r_, "")
     # what the loop does otherwise: decompress a valid archive, else download to the right target with the right size
-    dcs = [n for n in ast.walk(WL) if isinstance(n, ast.Call) and last_attr(n.func) == "decompress"]
-    ok = bool(dcs) and [u(a) for a in dcs[0].args[:2]] == [archv, docv]
-    if ok:
-        fs = pat.fact_nodes(dcs[0], stop=WL)
-        szf = [b_ for b_ in (pat.match(f_, f"self.has_expected_size({archv}, E_s)") for f_ in fs) if b_ is not None]
-        ok = any(pat.is_(f_, f"self.is_locally_available({archv})") for f_ in fs) and any("compressed_size_in_bytes" in b_["s"] and "uncompressed" not in b_["s"] for b_ in szf)
-    chk.ob("O14.4", "an archive is decompressed only if present with its expected (compressed) size", ok, dcs[0] if dcs else WL, "")
-    dws = [n for n in ast.walk(WL) if isinstance(n, ast.Call) and last_attr(n.func) == "download" and "downloader" in u(n.func)]
-    # roles: the locals passed as the target path (2nd) and the expected size (3rd argument) of downloader.download
-    ok = bool(dws) and len(dws[0].args) >= 3 and all(isinstance(a, ast.Name) for a in dws[0].args[1:3])
-    if ok:
-        tpv, esv = dws[0].args[1].id, dws[0].args[2].id
-        pairs = {}
-        for n in ast.walk(WL):
-            if isinstance(n, ast.Assign) and u(n.targets[0]) in (tpv, esv):
-                key = tuple((u(t), pol) for t, pol in guards(n, stop=WL))
-                pairs.setdefault(key, {})[u(n.targets[0])] = u(n.value)
+    dcm = method(ldr, ldr.cls("Decompressor"), "decompress")
+    dcmp = params(dcm, 3)
+    dcs = [(c, bound_params(a_, k_, dcm), r_) for c, a_, k_, r_ in preach if last_attr(c.func) == "decompress" and isinstance(c.func, ast.Attribute) and is_self_attr(c.func.value) and in_loop(r_)]
+    if not dcs:
+        chk.unknown("O14.4", "prepare_document_set: the call of <decompressor>.decompress inside the state loop cannot be located", WL)
+    else:
+        c, b_, r_ = dcs[0]
+        ok = [u(b_.get(dcmp[1])), u(b_.get(dcmp[2]))] == [archv, docv]
+        if ok:
+            fs = [a for f_ in pat.fact_nodes(r_, stop=WL) for a in conjuncts(inline_predicates(f_, pm, keep=("is_locally_available", "has_expected_size")))]
+            szf = [m_ for m_ in (pat.match(f_, f"self.has_expected_size({archv}, E_s)") for f_ in fs) if m_ is not None]
+            ok = any(pat.is_(f_, f"self.is_locally_available({archv})") for f_ in fs) and any("compressed_size_in_bytes" in m_["s"] and "uncompressed" not in m_["s"] for m_ in szf)
+        if not ok and r_ is not c:
+            chk.unknown("O14.4", f"prepare_document_set: decompress is reached through `{short(r_, 60)}`; the conditions inside that helper are not followed", r_)
+        else:
+            chk.ob("O14.4", "an archive is decompressed only if present with its expected (compressed) size", ok, c, "")
+    dwm = method(ldr, ldr.cls("Downloader"), "download")
+    dwp = params(dwm, 4)
+    dws = [(c, bound_params(a_, k_, dwm), r_) for c, a_, k_, r_ in preach if last_attr(c.func) == "download" and isinstance(c.func, ast.Attribute) and is_self_attr(c.func.value) and in_loop(r_)]
+    if not dws:
+        chk.unknown("O14.4", "prepare_document_set: the call of <downloader>.download inside the state loop cannot be located", WL)
+    else:
+        # roles: the values bound to download()'s target-path and expected-size parameters. Each is either written at the call or a local assigned in the arms of the loop; the
+        # alternatives are paired arm by arm (same explicit guards) and every pair must be archive <-> compressed size or document <-> uncompressed size
         good = {(archv, True), (docv, False)}
-        seen = set()
-        for d in pairs.values():
-            if tpv in d and esv in d:
-                comp = "uncompressed" not in d[esv] and "compressed" in d[esv]
-                seen.add((d[tpv], comp))
-        ok = seen == good
-    chk.ob("O14.4", "download target and expected size are paired (archive <-> compressed size, document <-> uncompressed size)", ok, dws[0] if dws else WL, "")
+        seen, odd = set(), []
+
+        def alternatives(e):
+            if isinstance(e, ast.Name) and e.id not in (archv, docv):
+                asg = [(n, n.value) for n in ast.walk(WL) if isinstance(n, ast.Assign) and len(n.targets) == 1 and u(n.targets[0]) == e.id]
+                asg += [(n, v_) for n in ast.walk(WL) if isinstance(n, ast.Assign) and len(n.targets) == 1 and isinstance(n.targets[0], ast.Tuple) and isinstance(n.value, ast.Tuple)
+                        and len(n.targets[0].elts) == len(n.value.elts) for t_, v_ in zip(n.targets[0].elts, n.value.elts) if u(t_) == e.id]  # `a, b = x, y`
+                if asg:
+                    return {tuple((u(t), pol) for t, pol in guards(n, stop=WL)): u(v_) for n, v_ in asg}
+            return {None: u(e)}
+
+        for c, b_, r_ in dws:
+            t_, z_ = b_.get(dwp[2]), b_.get(dwp[3])
+            if t_ is None or z_ is None:
+                odd.append(c)
+                continue
+            ta, za = alternatives(t_), alternatives(z_)
+            keys = (set(ta) | set(za)) - {None}
+            for k in keys or {None}:
+                tv_, zv_ = ta.get(k, ta.get(None)), za.get(k, za.get(None))
+                if tv_ is None or zv_ is None:
+                    continue
+                if tv_ not in (archv, docv) or "size_in_bytes" not in zv_:
+                    odd.append(c)
+                    continue
+                seen.add((tv_, "uncompressed" not in zv_ and "compressed" in zv_))
+        if seen - good:
+            chk.ob("O14.4", "download target and expected size are paired (archive <-> compressed size, document <-> uncompressed size)", False, dws[0][0],
+                   f"pairs found: {sorted((t_, 'compressed size' if z_ else 'uncompressed size') for t_, z_ in seen)}")
+        elif odd or seen != good:
+            chk.unknown("O14.4", f"prepare_document_set: the (target, expected size) pairs handed to download cannot all be told: {sorted(seen)}", dws[0][0])
+        else:
+            chk.ob("O14.4", "download target and expected size are paired (archive <-> compressed size, document <-> uncompressed size)", True, dws[0][0], "")
     hs = method(ldr, P, "has_expected_size")
-    r = [n for n in walk_body(hs) if isinstance(n, ast.Return)]
-    hp = params_of(hs)
-    ok = False
-    detail = u(r[0].value) if r else ""
-    if len(r) == 1 and r[0].value is not None and len(hp) == 3:
-        # evaluated on representative (declared, measured) pairs: true iff undeclared or exactly equal; the measured value is getsize(<file parameter>)
-        rv_ = returned(r[0])
-        detail = u(rv_)
-        meas = compared_with(rv_, hp[2])
-        if meas is not None and same_value(meas, expr(f"os.path.getsize({hp[1]})"), local_defs(hs)):
-            ok, d_ = mismatch_table(rv_, hp[2], u(meas), False)
-            detail += ("" if ok else " — " + d_)
-    chk.ob("O14.4", "has_expected_size: undeclared size or exact match", ok, hs, detail)
+    hp = params(hs, 3)
+    # evaluated (fn_result: guard clauses, temporaries, either operand order read the same) on representative (declared, measured) pairs: true iff undeclared or exactly equal; the
+    # measured value is os.path.getsize(<file parameter>) — anything else it consults cannot be evaluated
+    try:
+        wrong = []
+        for e_, m_, mism in _MISMATCH:
+            if bool(fn_result(hs, {hp[2]: e_, f"os.path.getsize({hp[1]})": m_})) != (not mism):
+                wrong.append(f"{hp[2]}={e_!r} vs {m_!r} on disk: {'accepted' if mism else 'rejected'}")
+        chk.ob("O14.4", "has_expected_size: undeclared size or exact match", not wrong, hs, "; ".join(wrong))
+    except CannotEval as x:
+        chk.unknown("O14.4", f"has_expected_size cannot be evaluated on (declared size, os.path.getsize({hp[1]})): {x}", hs)
     ila = method(ldr, P, "is_locally_available")
-    params(ila, 2)
-    ilr = [n for n in walk_body(ila) if isinstance(n, ast.Return)]
-    ok = len(ilr) == 1 and ilr[0].value is not None and u(returned(ilr[0])) == f"os.path.isfile({params_of(ila)[1]})"
-    chk.ob("O14.4", "is_locally_available: a regular file exists", ok, ila, "")
+    ip_ = params(ila, 2)[1]
+    try:
+        ok = all(fn_result(ila, {f"os.path.isfile({ip_})": v_}) is v_ for v_ in (True, False))
+        chk.ob("O14.4", "is_locally_available: a regular file exists", ok, ila, "")
+    except CannotEval as x:
+        chk.unknown("O14.4", f"is_locally_available cannot be evaluated on os.path.isfile({ip_}): {x}", ila)
     line_count_rule(chk, "O14.4", ldr)
     pb = method(ldr, P, "prepare_bundled_document_set")
     gb = cfg_of(pb)
     rt = [n for n in walk_body(pb) if isinstance(n, ast.Return) and source.is_const(n.value, True)]
-    otb = [n for n in walk_body(pb) if isinstance(n, ast.Call) and last_attr(n.func) == "create_file_offset_table"]
-    ok = bool(rt) and bool(otb) and all(gb.dominated_by_nodes(gb.node_of(r_), [gb.node_of(o) for o in otb]) for r_ in rt)
-    if ok:
+    otb = [r_ for c, a_, k_, r_ in calls_through(ldr, pb, cls=P) if last_attr(c.func) == "create_file_offset_table"]
+    if not rt or not otb:
+        chk.unknown("O14.4", "prepare_bundled_document_set: `return True` / the offset-table step cannot be located", pb)
+    else:
         bdoc, _, _ = path_roles(pb)
-        ok = all(pat.guarded(r_, f"self.is_locally_available({bdoc})") is not None and pat.guarded(r_, f"self.has_expected_size({bdoc}, E_s)") is not None for r_ in rt)
-    chk.ob("O14.4", "bundled: `return True` only for a present, right-sized file, after the offset table was built", ok, rt[0] if rt else pb, "")
+        present_b = lambda a: pat.is_(a, f"self.is_locally_available({bdoc})")  # noqa: E731
+        sized_b = lambda a: pat.match(a, f"self.has_expected_size({bdoc}, E_s)") is not None  # noqa: E731
+        ok = all(gb.dominated_by_nodes(gb.node_of(r_), [gb.node_of(o) for o in otb]) for r_ in rt)
+        for r_ in rt:
+            fs = pat.fact_nodes(r_)
+            cond = inline_predicates(ast.BoolOp(op=ast.And(), values=list(fs)) if len(fs) > 1 else (fs[0] if fs else ast.Constant(value=True)), pm, keep=("is_locally_available", "has_expected_size"))
+            ok = ok and cond_implies(cond, [present_b, sized_b])
+        chk.ob("O14.4", "bundled: `return True` only for a present, right-sized file, after the offset table was built", ok, rt[0], "")
 
     # ---- O14.5 format dispatch -------------------------------------------------------------------------------------------------------------------------------
     chk.rule("O14.5", "every extension of the supported-archive table has a branch in decompress(); multi-dot extensions are special-cased in splitext(); unknown extensions raise; the library "
@@ -1152,44 +1888,103 @@ def run(chk):
                 elif c[1] == "in" and isinstance(c[2], (ast.List, ast.Tuple, ast.Set)):
                     handled |= {e.value for e in c[2].elts if isinstance(e, ast.Constant)}
 
+    arch = params(dec, 1)[0]
+    tbls = module_tables(io_)
+
     def dispatch(value):
-        """outcome of decompress() for one concrete extension, by evaluating the if-chain (tests over the extension local only); None if the chain has an unsupported shape."""
+        """outcome of decompress() for one concrete extension: its statements evaluated (tables.decide; every test by minieval with the extension local := value, module-level tables
+        bound to their literal keys, locals assigned on the way substituted); None if the body has a shape beyond the evaluator."""
+        cur = {}
+
         def atom(n, env):
             if isinstance(n, (ast.BoolOp, ast.UnaryOp)):
                 return None
-            return bool(ev(n, env))
+            return bool(ev(source.inline_node(n, {k: v for k, v in cur.items() if v is not None and k not in env}), env))
 
         def on_stmt(s_, env, b):
-            return "skip" if not isinstance(s_, (ast.If, ast.Return, ast.Raise)) else None
+            cur.clear()
+            cur.update(b)
+            return "skip" if is_logging_stmt(s_) else None
 
         try:
-            return tables.decide(dec.body, atom, {k: value for k in extvs}, on_stmt=on_stmt)
+            return tables.decide(unrolled(dec.body), atom, dict(tbls, **{k: value for k in extvs}), on_stmt=on_stmt)
         except (tables.Unsupported, UnknownAtom, CannotEval):
             return None
 
+    def acts_on_archive(o):
+        """the calls on the path decompress() takes for an extension that are handed the archive (directly or inside an argument expression) — the extension look-up itself aside"""
+        return [e for e in o.effects if isinstance(e, ast.Call) and last_attr(e.func) != "splitext" and any(isinstance(x, ast.Name) and x.id == arch for a in list(e.args) + [k.value for k in e.keywords] for x in ast.walk(a))]
+
     for e in exts:
         o = dispatch(e)
-        ok = e in handled if o is None else (o.kind != "raise" and e in handled)
-        chk.ob("O14.5", f"extension {e} has a branch in decompress()", ok, dec, "" if ok or o is None else f"decompress() ends with `{o.text()[:80]}` for this extension", key=f"{_I}:decompress:ext:{e}")
+        if o is None:
+            # the chain cannot be evaluated: an explicit comparison of the extension local with this literal is accepted, anything else is 'not recognised'
+            if e in handled:
+                chk.ob("O14.5", f"extension {e} has a branch in decompress()", True, dec, "", key=f"{_I}:decompress:ext:{e}")
+            else:
+                chk.unknown("O14.5", f"io.decompress: what happens for the supported extension {e} cannot be evaluated (dispatch of an unrecognised shape)", dec)
+            continue
+        ok = o.kind != "raise" and bool(acts_on_archive(o))
+        chk.ob("O14.5", f"extension {e} has a branch in decompress()", ok, dec,
+               "" if ok else (f"decompress() ends with `{o.text()[:80]}` for this extension" if o.kind == "raise" else "no call on this path is handed the archive: it is silently not decompressed"),
+               key=f"{_I}:decompress:ext:{e}")
     se = io_.func("splitext")
-    special = {c.args[0].value for c in source.calls_in(se, attr="endswith") if c.args and isinstance(c.args[0], ast.Constant)}
+    sp_ = params(se, 1)[0]
     multi = [e for e in exts if e.count(".") > 1]
-    for e in multi:
-        chk.ob("O14.5", f"multi-dot extension {e} special-cased in splitext()", e in special, se, "", key=f"{_I}:splitext:{e}")
-    for n in walk_body(se):
-        rv_ = returned(n) if isinstance(n, ast.Return) else None
-        if isinstance(rv_, ast.Tuple) and len(rv_.elts) == 2:
-            # the suffix test that holds (positively) at this return, whichever arm it sits in
-            pos = [f_ for f_ in pat.fact_nodes(n) if isinstance(f_, ast.Call) and last_attr(f_.func) == "endswith" and f_.args and source.is_const(f_.args[0]) and isinstance(f_.args[0].value, str)]
-            if len(pos) == 1:
-                t = pos[0]
-                k = len(t.args[0].value)
-                ok = u(rv_.elts[0]).endswith((f"[0:-{k}]", f"[:-{k}]")) and u(rv_.elts[1]).endswith(f"[-{k}:]")
-                chk.ob("O14.5", f"splitext cuts {t.args[0].value} at its own length", ok, n, u(rv_))
+
+    def split_of(name):
+        """(root, extension) splitext() yields for a concrete file name: its statements evaluated by tables.decide, tests and the returned pair by minieval extended with string slices
+        and the pure os.path functions (ev_str); CannotEval when the body is beyond the evaluator (a loop over a suffix table, a regular expression)."""
+        cur = {}
+        inl = lambda n: source.inline_node(n, {k: v for k, v in cur.items() if v is not None})  # noqa: E731
+
+        def on_stmt(s_, env, b):
+            cur.clear()
+            cur.update(b)
+            return "skip" if is_logging_stmt(s_) else None
+
+        try:
+            o = tables.decide(unrolled(se.body), lambda n, env: None if isinstance(n, (ast.BoolOp, ast.UnaryOp)) else bool(ev_str(inl(n), {sp_: name})), {}, on_stmt=on_stmt)
+        except (tables.Unsupported, UnknownAtom) as x:
+            raise CannotEval(str(x))
+        if o.kind != "return" or o.value is None:
+            raise CannotEval(f"splitext ends with `{o.text()[:40]}`")
+        r = ev_str(inl(o.value), {sp_: name})
+        if not (isinstance(r, (list, tuple)) and len(r) == 2):
+            raise CannotEval("splitext does not return a pair")
+        return tuple(r)
+
+    try:
+        # decided on values: for every multi-dot extension e of the table and representative base names b (dots in the directory and in the name), splitext(b + e) == (b, e)
+        bases = (_REP, "/data/corp.us/documents", "documents")
+        got = {e: [split_of(b_ + e) for b_ in bases] for e in multi}
+        for e in multi:
+            chk.ob("O14.5", f"multi-dot extension {e} special-cased in splitext()", all(r[1] == e for r in got[e]), se,
+                   f"splitext({bases[0] + e!r}) -> {got[e][0]!r}", key=f"{_I}:splitext:{e}")
+        for e in multi:
+            chk.ob("O14.5", f"splitext cuts {e} at its own length", all(r == (b_, e) for r, b_ in zip(got[e], bases)), se, f"splitext({bases[0] + e!r}) -> {got[e][0]!r}")
+    except CannotEval as x_:
+        # not evaluable: the explicit `endswith(<literal>)` special cases and their slices are read off the code; what cannot be found that way is 'not recognised'
+        special = {c.args[0].value for c in source.calls_in(se, attr="endswith") if c.args and isinstance(c.args[0], ast.Constant)}
+        for e in multi:
+            if e in special:
+                chk.ob("O14.5", f"multi-dot extension {e} special-cased in splitext()", True, se, "", key=f"{_I}:splitext:{e}")
+            else:
+                chk.unknown("O14.5", f"io.splitext cannot be evaluated ({x_}) and has no explicit endswith({e!r}) case", se)
+        for n in walk_body(se):
+            rv_ = returned(n) if isinstance(n, ast.Return) else None
+            if isinstance(rv_, ast.Tuple) and len(rv_.elts) == 2:
+                # the suffix test that holds (positively) at this return, whichever arm it sits in
+                pos = [f_ for f_ in pat.fact_nodes(n) if isinstance(f_, ast.Call) and last_attr(f_.func) == "endswith" and f_.args and source.is_const(f_.args[0]) and isinstance(f_.args[0].value, str)]
+                if len(pos) == 1:
+                    t = pos[0]
+                    k = len(t.args[0].value)
+                    ok = u(rv_.elts[0]).endswith((f"[0:-{k}]", f"[:-{k}]")) and u(rv_.elts[1]).endswith(f"[-{k}:]")
+                    chk.ob("O14.5", f"splitext cuts {t.args[0].value} at its own length", ok, n, u(rv_))
     # evaluated: extensions outside the table (and the empty one) end in a raise; falls back to the shape of the chain when it cannot be evaluated
     outs = [dispatch(x) for x in (".unsupported", "", ".tar.xz")]
     if all(o is not None for o in outs):
-        ok = all(o.kind == "raise" for o in outs)
+        chk.ob("O14.5", "unknown extension raises", all(o.kind == "raise" for o in outs), dec, "")
     else:
         last = dec.body[-1]
         while isinstance(last, ast.If) and last.orelse:
@@ -1197,12 +1992,18 @@ def run(chk):
                 last = last.orelse[0]
             else:
                 break
-        ok = isinstance(last, ast.If) and last.orelse and isinstance(last.orelse[-1], ast.Raise)
-    chk.ob("O14.5", "unknown extension raises", bool(ok), dec, "")
+        if isinstance(last, ast.If) and last.orelse and isinstance(last.orelse[-1], ast.Raise):
+            chk.ob("O14.5", "unknown extension raises", True, dec, "")
+        else:
+            chk.unknown("O14.5", "io.decompress: what happens for an extension outside the table can neither be evaluated nor read off a final `else: raise`", dec)
     dm = io_.func("_do_decompress_manually")
+    io_.func("_do_decompress_manually_with_lib"), io_.func("_do_decompress_manually_external")  # the two roles exist (AnchorMissing otherwise); their call sites are looked for below
     gm = cfg_of(dm)
+    mdefs = local_defs(dm)
+    is_ext = lambda t: isinstance(t, ast.Call) and last_attr(t.func) == "_do_decompress_manually_external"  # noqa: E731
     lib = [gm.node_of(n) for n in walk_body(dm) if isinstance(n, ast.Call) and last_attr(n.func) == "_do_decompress_manually_with_lib"]
-    okret = [gm.node_of(n) for n in walk_body(dm) if isinstance(n, ast.Return) and any(isinstance(t, ast.Call) and last_attr(t.func) == "_do_decompress_manually_external" for t in pat.fact_nodes(n))]
+    # a return that is reached only when the external run reported success: the call itself, or a local holding its result, is a (positive) guard fact
+    okret = [gm.node_of(n) for n in walk_body(dm) if isinstance(n, ast.Return) and any(is_ext(t) or (isinstance(t, ast.Name) and is_ext(mdefs.get(t.id))) for t in pat.fact_nodes(n))]
     ok = bool(lib) and gm.must_pass(gm.entry, lib + okret, normal_only=True)
     path = None
     if not ok:
@@ -1211,11 +2012,18 @@ def run(chk):
     chk.ob("O14.5", "library fallback (or a successful external run) on every path", ok, dm, "" if ok else "a path ends without having decompressed anything: " + " ".join(path or []), path=path)
     dme = io_.func("_do_decompress_manually_external")
     rets = [n for n in walk_body(dme) if isinstance(n, ast.Return)]
-    ok = any(source.is_const(r.value, False) and isinstance(source.enclosing(r, ast.ExceptHandler), ast.ExceptHandler) for r in rets) and any(source.is_const(r.value, True) for r in rets)
-    chk.ob("O14.5", "external decompressor reports failure as False", ok, dme, "")
+    in_handler = lambda r: source.enclosing(r, ast.ExceptHandler) is not None  # noqa: E731
+    if rets and all(isinstance(r.value, ast.Constant) and isinstance(r.value.value, bool) for r in rets) and gdl_has_normal_return(dme):
+        ok = any(r.value.value is False and in_handler(r) for r in rets) and any(r.value.value is True for r in rets) and not any(r.value.value is True and in_handler(r) for r in rets)
+        chk.ob("O14.5", "external decompressor reports failure as False", ok, dme, "")
+    else:
+        chk.unknown("O14.5", "_do_decompress_manually_external: the result is not reported through `return True` / `return False` statements (what a failed run yields cannot be told)", dme)
     runc = [n for n in walk_body(dme) if isinstance(n, ast.Call) and dotted(n.func) == "subprocess.run"]
-    ck = arg_of(runc[0], None, "check") if runc else None
-    chk.ob("O14.5", "external decompressor failures are detected (check=True)", ck is not None and source.is_const(ck, True), runc[0] if runc else dme, "")
+    if not runc:
+        chk.unknown("O14.5", "_do_decompress_manually_external: the subprocess.run(...) call cannot be located", dme)
+    else:
+        ck = arg_of(runc[0], None, "check")
+        chk.ob("O14.5", "external decompressor failures are detected (check=True)", ck is not None and source.is_const(ck, True), runc[0], "")
 
     # ---- O14.6 offset table protocol ---------------------------------------------------------------------------------------------------------------------------------
     offset_table_protocol(chk, io_, "O14.6")
@@ -1341,4 +2149,98 @@ VARIANTS = [
     V("F25 respelled: the downloaded target's table is invalidated (target is the document file whenever the download creates it)", "keep", _L,
       "                    self.downloader.download(document_set.base_url, target_path, expected_size)\n                    self.invalidate_file_offset_table(doc_path)\n",
       "                    self.downloader.download(document_set.base_url, target_path, expected_size)\n                    self.invalidate_file_offset_table(target_path)\n"),
+    # ---- hardening round 2: refactored shapes the re-stated obligations accept (keep) and defects placed inside those shapes (break)
+    V('scan as `while data_file.readline():` (readline in the loop test)', 'keep', _I, '                    while True:\n                        line = data_file.readline()\n                        if len(line) == 0:\n                            break\n                        line_number += 1\n', '                    while data_file.readline():\n                        line_number += 1\n'),
+    V('scan as `while (line := data_file.readline()):`', 'keep', _I, '                    while True:\n                        line = data_file.readline()\n                        if len(line) == 0:\n                            break\n                        line_number += 1\n', '                    while (line := data_file.readline()):\n                        line_number += 1\n'),
+    V('scan as `for line in iter(data_file.readline, "")`', 'keep', _I, '                    while True:\n                        line = data_file.readline()\n                        if len(line) == 0:\n                            break\n                        line_number += 1\n', '                    for line in iter(data_file.readline, ""):\n                        line_number += 1\n'),
+    V('scan as enumerate(iter(data_file.readline, ""), start=1): the counter is the enumerate position', 'keep', _I, '                    while True:\n                        line = data_file.readline()\n                        if len(line) == 0:\n                            break\n                        line_number += 1\n', '                    for line_number, _ in enumerate(iter(data_file.readline, ""), start=1):\n'),
+    V('add_offset called with keyword arguments', 'keep', _I, 'file_offset_table.add_offset(line_number, data_file.tell())', 'file_offset_table.add_offset(offset=data_file.tell(), line_number=line_number)'),
+    V('enumerate(...) from 0: every recorded line number is one too small', 'break', _I, '                    while True:\n                        line = data_file.readline()\n                        if len(line) == 0:\n                            break\n                        line_number += 1\n', '                    for line_number, _ in enumerate(iter(data_file.readline, "")):\n', 'O14.6'),
+    V('enumerate over the file object itself (tell() is disabled during iteration)', 'break', _I, '                    while True:\n                        line = data_file.readline()\n                        if len(line) == 0:\n                            break\n                        line_number += 1\n', '                    for line_number, _ in enumerate(data_file, 1):\n', 'O14.6'),
+    V('`while data_file.readline().strip():` — the scan ends at the first blank line', 'break', _I, '                    while True:\n                        line = data_file.readline()\n                        if len(line) == 0:\n                            break\n                        line_number += 1\n', '                    while data_file.readline().strip():\n                        line_number += 1\n', 'O14.6'),
+    V('iter(readline, "\\n") — the scan ends at the first blank line, never at end of file', 'break', _I, '                    while True:\n                        line = data_file.readline()\n                        if len(line) == 0:\n                            break\n                        line_number += 1\n', '                    for line in iter(data_file.readline, "\\n"):\n                        line_number += 1\n', 'O14.6'),
+    V('the empty read is counted before the end-of-file test', 'break', _I, '                    while True:\n                        line = data_file.readline()\n                        if len(line) == 0:\n                            break\n                        line_number += 1\n', '                    while True:\n                        line = data_file.readline()\n                        line_number += 1\n                        if len(line) == 0:\n                            break\n', 'O14.6'),
+    V('line counter starts at 1', 'break', _I, '        line_number = 0\n        # build the table', '        line_number = 1\n        # build the table', 'O14.6'),
+    V('add_offset arguments swapped', 'break', _I, 'file_offset_table.add_offset(line_number, data_file.tell())', 'file_offset_table.add_offset(data_file.tell(), line_number)', 'O14.6'),
+    V('is_valid with a guard clause and a temporary', 'keep', _I, '        return self.exists() and os.path.getmtime(self.offset_table_path) >= os.path.getmtime(self.data_file_path)', '        if not self.exists():\n            return False\n        table_mtime = os.path.getmtime(self.offset_table_path)\n        return table_mtime >= os.path.getmtime(self.data_file_path)'),
+    V('is_valid with a guard clause that declares a missing table valid', 'break', _I, '        return self.exists() and os.path.getmtime(self.offset_table_path) >= os.path.getmtime(self.data_file_path)', '        if not self.exists():\n            return True\n        return os.path.getmtime(self.offset_table_path) >= os.path.getmtime(self.data_file_path)', 'O14.6'),
+    V('entry written with write() and string concatenation', 'keep', _I, '        print(f"{line_number};{offset}", file=self.offset_file)', '        self.offset_file.write(str(line_number) + ";" + str(offset) + "\\n")'),
+    V('reader parses through an intermediate list', 'keep', _I, '            line_number, offset_in_bytes = (int(i) for i in line.strip().split(";"))', '            fields = line.strip().split(";")\n            line_number, offset_in_bytes = int(fields[0]), int(fields[1])'),
+    V("writer separator differs from the reader's", 'break', _I, '        print(f"{line_number};{offset}", file=self.offset_file)', '        print(f"{line_number},{offset}", file=self.offset_file)', 'O14.6'),
+    V('skipper without the redundant `if`, range(0, n)', 'keep', _I, '    if remaining_lines > 0:\n        for _ in range(remaining_lines):\n            data_file.readline()', '    for _ in range(0, remaining_lines):\n        data_file.readline()'),
+    V('skipper reads one line too many', 'break', _I, '    if remaining_lines > 0:\n        for _ in range(remaining_lines):\n            data_file.readline()', '    for _ in range(remaining_lines + 1):\n        data_file.readline()', 'O14.6'),
+    V('without a table nothing is skipped', 'break', _I, '        offset = 0\n        remaining_lines = number_of_lines_to_skip', '        offset = 0\n        remaining_lines = 0', 'O14.6'),
+    [V('download(): transport dispatch and clean-up extracted into helper functions', 'keep', _N, 'def download(url, local_path, expected_size_in_bytes=None, progress_indicator=None):\n', 'def _discard_partial_download(tmp_path):\n    if os.path.isfile(tmp_path):\n        os.remove(tmp_path)\n\n\ndef _fetch(url, target_path, expected_size_in_bytes, progress_indicator):\n    scheme = urllib3.util.parse_url(url).scheme\n    if scheme in ["s3", "gs"]:\n        return download_from_bucket(scheme, url, target_path, expected_size_in_bytes, progress_indicator)\n    return download_http(url, target_path, expected_size_in_bytes, progress_indicator)\n\n\ndef download(url, local_path, expected_size_in_bytes=None, progress_indicator=None):\n'),
+     V('', 'keep', _N, '        scheme = urllib3.util.parse_url(url).scheme\n        if scheme in ["s3", "gs"]:\n            expected_size_in_bytes = download_from_bucket(scheme, url, tmp_data_set_path, expected_size_in_bytes, progress_indicator)\n        else:\n            expected_size_in_bytes = download_http(url, tmp_data_set_path, expected_size_in_bytes, progress_indicator)\n', '        expected_size_in_bytes = _fetch(url, tmp_data_set_path, expected_size_in_bytes, progress_indicator)\n'),
+     V('', 'keep', _N, '    except BaseException:\n        if os.path.isfile(tmp_data_set_path):\n            os.remove(tmp_data_set_path)\n        raise\n', '    except BaseException:\n        _discard_partial_download(tmp_data_set_path)\n        raise\n'),
+     V('', 'keep', _N, '    if expected_size_in_bytes is not None and download_size != expected_size_in_bytes:\n        if os.path.isfile(tmp_data_set_path):\n            os.remove(tmp_data_set_path)\n', '    if expected_size_in_bytes is not None and download_size != expected_size_in_bytes:\n        _discard_partial_download(tmp_data_set_path)\n')],
+    [V('extracted _fetch is handed the final path', 'break', _N, 'def download(url, local_path, expected_size_in_bytes=None, progress_indicator=None):\n', 'def _discard_partial_download(tmp_path):\n    if os.path.isfile(tmp_path):\n        os.remove(tmp_path)\n\n\ndef _fetch(url, target_path, expected_size_in_bytes, progress_indicator):\n    scheme = urllib3.util.parse_url(url).scheme\n    if scheme in ["s3", "gs"]:\n        return download_from_bucket(scheme, url, target_path, expected_size_in_bytes, progress_indicator)\n    return download_http(url, target_path, expected_size_in_bytes, progress_indicator)\n\n\ndef download(url, local_path, expected_size_in_bytes=None, progress_indicator=None):\n', 'O14.1'),
+     V('', 'break', _N, '        scheme = urllib3.util.parse_url(url).scheme\n        if scheme in ["s3", "gs"]:\n            expected_size_in_bytes = download_from_bucket(scheme, url, tmp_data_set_path, expected_size_in_bytes, progress_indicator)\n        else:\n            expected_size_in_bytes = download_http(url, tmp_data_set_path, expected_size_in_bytes, progress_indicator)\n', '        expected_size_in_bytes = _fetch(url, local_path, expected_size_in_bytes, progress_indicator)\n'),
+     V('', 'break', _N, '    except BaseException:\n        if os.path.isfile(tmp_data_set_path):\n            os.remove(tmp_data_set_path)\n        raise\n', '    except BaseException:\n        _discard_partial_download(tmp_data_set_path)\n        raise\n'),
+     V('', 'break', _N, '    if expected_size_in_bytes is not None and download_size != expected_size_in_bytes:\n        if os.path.isfile(tmp_data_set_path):\n            os.remove(tmp_data_set_path)\n', '    if expected_size_in_bytes is not None and download_size != expected_size_in_bytes:\n        _discard_partial_download(tmp_data_set_path)\n')],
+    [V('extracted clean-up helper removes the temporary file only when it is absent', 'break', _N, 'def download(url, local_path, expected_size_in_bytes=None, progress_indicator=None):\n', 'def _discard_partial_download(tmp_path):\n    if not os.path.isfile(tmp_path):\n        os.remove(tmp_path)\n\n\ndef _fetch(url, target_path, expected_size_in_bytes, progress_indicator):\n    scheme = urllib3.util.parse_url(url).scheme\n    if scheme in ["s3", "gs"]:\n        return download_from_bucket(scheme, url, target_path, expected_size_in_bytes, progress_indicator)\n    return download_http(url, target_path, expected_size_in_bytes, progress_indicator)\n\n\ndef download(url, local_path, expected_size_in_bytes=None, progress_indicator=None):\n', 'O14.1'),
+     V('', 'break', _N, '        scheme = urllib3.util.parse_url(url).scheme\n        if scheme in ["s3", "gs"]:\n            expected_size_in_bytes = download_from_bucket(scheme, url, tmp_data_set_path, expected_size_in_bytes, progress_indicator)\n        else:\n            expected_size_in_bytes = download_http(url, tmp_data_set_path, expected_size_in_bytes, progress_indicator)\n', '        expected_size_in_bytes = _fetch(url, tmp_data_set_path, expected_size_in_bytes, progress_indicator)\n'),
+     V('', 'break', _N, '    except BaseException:\n        if os.path.isfile(tmp_data_set_path):\n            os.remove(tmp_data_set_path)\n        raise\n', '    except BaseException:\n        _discard_partial_download(tmp_data_set_path)\n        raise\n'),
+     V('', 'break', _N, '    if expected_size_in_bytes is not None and download_size != expected_size_in_bytes:\n        if os.path.isfile(tmp_data_set_path):\n            os.remove(tmp_data_set_path)\n', '    if expected_size_in_bytes is not None and download_size != expected_size_in_bytes:\n        _discard_partial_download(tmp_data_set_path)\n')],
+    [V('extracted _fetch writes to the final path itself (ignores its target parameter for HTTP)', 'break', _N, 'def download(url, local_path, expected_size_in_bytes=None, progress_indicator=None):\n', 'def _discard_partial_download(tmp_path):\n    if os.path.isfile(tmp_path):\n        os.remove(tmp_path)\n\n\ndef _fetch(url, target_path, expected_size_in_bytes, progress_indicator):\n    scheme = urllib3.util.parse_url(url).scheme\n    if scheme in ["s3", "gs"]:\n        return download_from_bucket(scheme, url, target_path, expected_size_in_bytes, progress_indicator)\n    return download_http(url, target_path[:-4], expected_size_in_bytes, progress_indicator)\n\n\ndef download(url, local_path, expected_size_in_bytes=None, progress_indicator=None):\n', 'O14.1'),
+     V('', 'break', _N, '        scheme = urllib3.util.parse_url(url).scheme\n        if scheme in ["s3", "gs"]:\n            expected_size_in_bytes = download_from_bucket(scheme, url, tmp_data_set_path, expected_size_in_bytes, progress_indicator)\n        else:\n            expected_size_in_bytes = download_http(url, tmp_data_set_path, expected_size_in_bytes, progress_indicator)\n', '        expected_size_in_bytes = _fetch(url, tmp_data_set_path, expected_size_in_bytes, progress_indicator)\n'),
+     V('', 'break', _N, '    except BaseException:\n        if os.path.isfile(tmp_data_set_path):\n            os.remove(tmp_data_set_path)\n        raise\n', '    except BaseException:\n        _discard_partial_download(tmp_data_set_path)\n        raise\n'),
+     V('', 'break', _N, '    if expected_size_in_bytes is not None and download_size != expected_size_in_bytes:\n        if os.path.isfile(tmp_data_set_path):\n            os.remove(tmp_data_set_path)\n', '    if expected_size_in_bytes is not None and download_size != expected_size_in_bytes:\n        _discard_partial_download(tmp_data_set_path)\n')],
+    V('retry handler with inverted test (retry arm first, bare raise last)', 'keep', _N, '            if i == HTTP_DOWNLOAD_RETRIES:\n                raise\n            logger.warning("Retrying after %s", exc)\n            sleep(5)\n            continue\n', '            if i < HTTP_DOWNLOAD_RETRIES:\n                logger.warning("Retrying after %s", exc)\n                sleep(5)\n                continue\n            raise\n'),
+    [V('1-based attempt counter', 'keep', _N, '    for i in range(HTTP_DOWNLOAD_RETRIES + 1):', '    for i in range(1, HTTP_DOWNLOAD_RETRIES + 2):'),
+     V('', 'keep', _N, '            if i == HTTP_DOWNLOAD_RETRIES:\n                raise', '            if i > HTTP_DOWNLOAD_RETRIES:\n                raise')],
+    [V("transfer result kept in a local and returned in the try's else arm, keyword arguments", 'keep', _N, '            return _download_http(url, local_path, expected_size_in_bytes, progress_indicator)\n', '            result = _download_http(url, local_path, expected_size_in_bytes=expected_size_in_bytes, progress_indicator=progress_indicator)\n'),
+     V('', 'keep', _N, '            if i == HTTP_DOWNLOAD_RETRIES:\n                raise\n            logger.warning("Retrying after %s", exc)\n            sleep(5)\n            continue\n', '            if i == HTTP_DOWNLOAD_RETRIES:\n                raise\n            logger.warning("Retrying after %s", exc)\n            sleep(5)\n            continue\n        else:\n            return result\n')],
+    V("last attempt's error turned into `return None`", 'break', _N, '            if i == HTTP_DOWNLOAD_RETRIES:\n                raise\n            logger.warning("Retrying after %s", exc)\n            sleep(5)\n            continue\n', '            if i == HTTP_DOWNLOAD_RETRIES:\n                return None\n            logger.warning("Retrying after %s", exc)\n            sleep(5)\n            continue\n', 'O14.2'),
+    V('1-based attempt counter, re-raise test left 0-based (one attempt is lost, the last error is swallowed)', 'break', _N, '    for i in range(HTTP_DOWNLOAD_RETRIES + 1):', '    for i in range(1, HTTP_DOWNLOAD_RETRIES + 2):', 'O14.2'),
+    V('transfer result discarded', 'break', _N, '            return _download_http(url, local_path, expected_size_in_bytes, progress_indicator)\n', '            _download_http(url, local_path, expected_size_in_bytes, progress_indicator)\n            return expected_size_in_bytes\n', 'O14.2'),
+    V('Downloader: verification after the transfer extracted into a helper method', 'keep', _L, '        if not os.path.isfile(target_path):\n            raise exceptions.SystemSetupError(\n                f"Could not download [{data_url}] to [{target_path}]. Verify data "\n                f"are available at [{data_url}] and check your Internet connection."\n            )\n\n        actual_size = os.path.getsize(target_path)\n        if size_in_bytes is not None and actual_size != size_in_bytes:\n            raise exceptions.DataError(\n                f"[{target_path}] is corrupt. Downloaded [{actual_size}] bytes but [{size_in_bytes}] bytes are expected."\n            )\n', '        self._verify(data_url, target_path, size_in_bytes)\n\n    def _verify(self, url, path, expected):\n        if not os.path.isfile(path):\n            raise exceptions.SystemSetupError(f"Could not download [{url}] to [{path}].")\n        actual_size = os.path.getsize(path)\n        if expected is not None and actual_size != expected:\n            raise exceptions.DataError(f"[{path}] is corrupt. Downloaded [{actual_size}] bytes but [{expected}] bytes are expected.")\n'),
+    V('extracted verification helper tests the declared size by truthiness', 'break', _L, '        if not os.path.isfile(target_path):\n            raise exceptions.SystemSetupError(\n                f"Could not download [{data_url}] to [{target_path}]. Verify data "\n                f"are available at [{data_url}] and check your Internet connection."\n            )\n\n        actual_size = os.path.getsize(target_path)\n        if size_in_bytes is not None and actual_size != size_in_bytes:\n            raise exceptions.DataError(\n                f"[{target_path}] is corrupt. Downloaded [{actual_size}] bytes but [{size_in_bytes}] bytes are expected."\n            )\n', '        self._verify(data_url, target_path, size_in_bytes)\n\n    def _verify(self, url, path, expected):\n        if not os.path.isfile(path):\n            raise exceptions.SystemSetupError(f"Could not download [{url}] to [{path}].")\n        actual_size = os.path.getsize(path)\n        if expected and actual_size != expected:\n            raise exceptions.DataError(f"[{path}] is corrupt. Downloaded [{actual_size}] bytes but [{expected}] bytes are expected.")\n', 'O14.3'),
+    V('extracted verification helper lost the existence test', 'break', _L, '        if not os.path.isfile(target_path):\n            raise exceptions.SystemSetupError(\n                f"Could not download [{data_url}] to [{target_path}]. Verify data "\n                f"are available at [{data_url}] and check your Internet connection."\n            )\n\n        actual_size = os.path.getsize(target_path)\n        if size_in_bytes is not None and actual_size != size_in_bytes:\n            raise exceptions.DataError(\n                f"[{target_path}] is corrupt. Downloaded [{actual_size}] bytes but [{size_in_bytes}] bytes are expected."\n            )\n', '        self._verify(data_url, target_path, size_in_bytes)\n\n    def _verify(self, url, path, expected):\n        actual_size = os.path.getsize(path)\n        if expected is not None and actual_size != expected:\n            raise exceptions.DataError(f"[{path}] is corrupt. Downloaded [{actual_size}] bytes but [{expected}] bytes are expected.")\n', 'O14.3'),
+    [V('Downloader: base-URL / offline guards extracted into a helper method, net.download called with keywords', 'keep', _L, '        if not base_url:\n            raise exceptions.DataError("Cannot download data because no base URL is provided.")\n        if self.offline:\n            raise exceptions.SystemSetupError(f"Cannot find [{target_path}]. Please disable offline mode and retry.")\n', '        self._check_can_download(base_url, target_path)\n'),
+     V('', 'keep', _L, 'class Downloader:\n', 'class Downloader:\n    def _check_can_download(self, base_url, target_path):\n        if not base_url:\n            raise exceptions.DataError("Cannot download data because no base URL is provided.")\n        if self.offline:\n            raise exceptions.SystemSetupError(f"Cannot find [{target_path}]. Please disable offline mode and retry.")\n\n'),
+     V('', 'keep', _L, '            net.download(data_url, target_path, size_in_bytes, progress_indicator=progress)', '            net.download(data_url, local_path=target_path, expected_size_in_bytes=size_in_bytes, progress_indicator=progress)')],
+    [V('extracted guard helper lost the base-URL test', 'break', _L, '        if not base_url:\n            raise exceptions.DataError("Cannot download data because no base URL is provided.")\n        if self.offline:\n            raise exceptions.SystemSetupError(f"Cannot find [{target_path}]. Please disable offline mode and retry.")\n', '        self._check_can_download(base_url, target_path)\n', 'O14.3'),
+     V('', 'break', _L, 'class Downloader:\n', 'class Downloader:\n    def _check_can_download(self, base_url, target_path):\n        if self.offline:\n            raise exceptions.SystemSetupError(f"Cannot find [{target_path}]. Please disable offline mode and retry.")\n\n')],
+    V('state loop as `while not (<present and right-sized>):`', 'keep', _L, '        while True:\n            if self.is_locally_available(doc_path) and self.has_expected_size(doc_path, document_set.uncompressed_size_in_bytes):\n                break\n', '        while not (self.is_locally_available(doc_path) and self.has_expected_size(doc_path, document_set.uncompressed_size_in_bytes)):\n'),
+    V('state loop as `while not <present>:` (size not part of the exit condition)', 'break', _L, '        while True:\n            if self.is_locally_available(doc_path) and self.has_expected_size(doc_path, document_set.uncompressed_size_in_bytes):\n                break\n', '        while not self.is_locally_available(doc_path):\n', 'O14.4'),
+    V('state loop as `while not (<present> or <right-sized>):`', 'break', _L, '        while True:\n            if self.is_locally_available(doc_path) and self.has_expected_size(doc_path, document_set.uncompressed_size_in_bytes):\n                break\n', '        while not (self.is_locally_available(doc_path) or self.has_expected_size(doc_path, document_set.uncompressed_size_in_bytes)):\n', 'O14.4'),
+    [V('exit condition extracted into a predicate method', 'keep', _L, '            if self.is_locally_available(doc_path) and self.has_expected_size(doc_path, document_set.uncompressed_size_in_bytes):\n                break', '            if self._is_ready(doc_path, document_set):\n                break'),
+     V('', 'keep', _L, '    def has_expected_size(self, file_name, expected_size):', '    def _is_ready(self, path, ds):\n        return self.is_locally_available(path) and self.has_expected_size(path, ds.uncompressed_size_in_bytes)\n\n    def has_expected_size(self, file_name, expected_size):')],
+    [V('extracted exit predicate joins the two tests with `or`', 'break', _L, '            if self.is_locally_available(doc_path) and self.has_expected_size(doc_path, document_set.uncompressed_size_in_bytes):\n                break', '            if self._is_ready(doc_path, document_set):\n                break', 'O14.4'),
+     V('', 'break', _L, '    def has_expected_size(self, file_name, expected_size):', '    def _is_ready(self, path, ds):\n        return self.is_locally_available(path) or self.has_expected_size(path, ds.uncompressed_size_in_bytes)\n\n    def has_expected_size(self, file_name, expected_size):')],
+    [V('extracted exit predicate checks the compressed size', 'break', _L, '            if self.is_locally_available(doc_path) and self.has_expected_size(doc_path, document_set.uncompressed_size_in_bytes):\n                break', '            if self._is_ready(doc_path, document_set):\n                break', 'O14.4'),
+     V('', 'break', _L, '    def has_expected_size(self, file_name, expected_size):', '    def _is_ready(self, path, ds):\n        return self.is_locally_available(path) and self.has_expected_size(path, ds.compressed_size_in_bytes)\n\n    def has_expected_size(self, file_name, expected_size):')],
+    V('has_expected_size with a guard clause and a temporary', 'keep', _L, '        return expected_size is None or os.path.getsize(file_name) == expected_size', '        if expected_size is None:\n            return True\n        actual = os.path.getsize(file_name)\n        return actual == expected_size'),
+    V('has_expected_size guard clause by truthiness (a declared size of 0 is not checked)', 'break', _L, '        return expected_size is None or os.path.getsize(file_name) == expected_size', '        if not expected_size:\n            return True\n        return os.path.getsize(file_name) == expected_size', 'O14.4'),
+    V('offset-table step moved into a helper method (keyword arguments)', 'keep', _L, '        self.create_file_offset_table(doc_path, document_set.number_of_lines)\n\n    def prepare_bundled', '        self._finish(doc_path, document_set)\n\n    def _finish(self, path, ds):\n        self.create_file_offset_table(expected_number_of_lines=ds.number_of_lines, document_file_path=path)\n\n    def prepare_bundled'),
+    V('offset-table helper is handed the archive', 'break', _L, '        self.create_file_offset_table(doc_path, document_set.number_of_lines)\n\n    def prepare_bundled', '        self._finish(archive_path, document_set)\n\n    def _finish(self, path, ds):\n        self.create_file_offset_table(path, ds.number_of_lines)\n\n    def prepare_bundled', 'O14.4'),
+    V('download pair as a tuple assignment', 'keep', _L, '                    target_path = archive_path\n                    expected_size = document_set.compressed_size_in_bytes', '                    target_path, expected_size = archive_path, document_set.compressed_size_in_bytes'),
+    V('download pair as a tuple assignment, sizes crossed', 'break', _L, '                    target_path = archive_path\n                    expected_size = document_set.compressed_size_in_bytes', '                    target_path, expected_size = archive_path, document_set.uncompressed_size_in_bytes', 'O14.4'),
+    [V('extension if-chain replaced by a module-level dispatch table', 'keep', _I, 'def decompress(zip_name: str, target_directory: str) -> None:\n', '_SINGLE_FILE_DECOMPRESSORS = {\n    ".bz2": (("pbzip2", "-d", "-k", "-m10000", "-c"), bz2.open),\n    ".zst": (("pzstd", "-f", "-d", "-c"), ZstAdapter),\n    ".gz": (("pigz", "-d", "-k", "-c"), gzip.open),\n}\n_TAR_ARCHIVE_EXTENSIONS = frozenset([".tar", ".tar.gz", ".tgz", ".tar.bz2"])\n\n\ndef decompress(zip_name: str, target_directory: str) -> None:\n'),
+     V('', 'keep', _I, '    if extension == ".zip":\n        _do_decompress(target_directory, zipfile.ZipFile(zip_name))\n    elif extension == ".bz2":\n        decompressor_args = ["pbzip2", "-d", "-k", "-m10000", "-c"]\n        decompressor_lib_bz2 = bz2.open\n        _do_decompress_manually(target_directory, zip_name, decompressor_args, decompressor_lib_bz2)\n    elif extension == ".zst":\n        decompressor_args = ["pzstd", "-f", "-d", "-c"]\n        decompressor_lib_zst = ZstAdapter\n        _do_decompress_manually(target_directory, zip_name, decompressor_args, decompressor_lib_zst)\n    elif extension == ".gz":\n        decompressor_args = ["pigz", "-d", "-k", "-c"]\n        decompressor_lib_gzip = gzip.open\n        _do_decompress_manually(target_directory, zip_name, decompressor_args, decompressor_lib_gzip)\n    elif extension in [".tar", ".tar.gz", ".tgz", ".tar.bz2"]:\n', '    if extension in _SINGLE_FILE_DECOMPRESSORS:\n        decompressor_args, decompressor_lib = _SINGLE_FILE_DECOMPRESSORS[extension]\n        _do_decompress_manually(target_directory, zip_name, list(decompressor_args), decompressor_lib)\n    elif extension == ".zip":\n        _do_decompress(target_directory, zipfile.ZipFile(zip_name))\n    elif extension in _TAR_ARCHIVE_EXTENSIONS:\n')],
+    [V('dispatch table without the .gz entry', 'break', _I, 'def decompress(zip_name: str, target_directory: str) -> None:\n', '_SINGLE_FILE_DECOMPRESSORS = {\n    ".bz2": (("pbzip2", "-d", "-k", "-m10000", "-c"), bz2.open),\n    ".zst": (("pzstd", "-f", "-d", "-c"), ZstAdapter),\n}\n_TAR_ARCHIVE_EXTENSIONS = frozenset([".tar", ".tar.gz", ".tgz", ".tar.bz2"])\n\n\ndef decompress(zip_name: str, target_directory: str) -> None:\n', 'O14.5'),
+     V('', 'break', _I, '    if extension == ".zip":\n        _do_decompress(target_directory, zipfile.ZipFile(zip_name))\n    elif extension == ".bz2":\n        decompressor_args = ["pbzip2", "-d", "-k", "-m10000", "-c"]\n        decompressor_lib_bz2 = bz2.open\n        _do_decompress_manually(target_directory, zip_name, decompressor_args, decompressor_lib_bz2)\n    elif extension == ".zst":\n        decompressor_args = ["pzstd", "-f", "-d", "-c"]\n        decompressor_lib_zst = ZstAdapter\n        _do_decompress_manually(target_directory, zip_name, decompressor_args, decompressor_lib_zst)\n    elif extension == ".gz":\n        decompressor_args = ["pigz", "-d", "-k", "-c"]\n        decompressor_lib_gzip = gzip.open\n        _do_decompress_manually(target_directory, zip_name, decompressor_args, decompressor_lib_gzip)\n    elif extension in [".tar", ".tar.gz", ".tgz", ".tar.bz2"]:\n', '    if extension in _SINGLE_FILE_DECOMPRESSORS:\n        decompressor_args, decompressor_lib = _SINGLE_FILE_DECOMPRESSORS[extension]\n        _do_decompress_manually(target_directory, zip_name, list(decompressor_args), decompressor_lib)\n    elif extension == ".zip":\n        _do_decompress(target_directory, zipfile.ZipFile(zip_name))\n    elif extension in _TAR_ARCHIVE_EXTENSIONS:\n')],
+    [V('dispatch table: tar set without .tgz', 'break', _I, 'def decompress(zip_name: str, target_directory: str) -> None:\n', '_SINGLE_FILE_DECOMPRESSORS = {\n    ".bz2": (("pbzip2", "-d", "-k", "-m10000", "-c"), bz2.open),\n    ".zst": (("pzstd", "-f", "-d", "-c"), ZstAdapter),\n    ".gz": (("pigz", "-d", "-k", "-c"), gzip.open),\n}\n_TAR_ARCHIVE_EXTENSIONS = frozenset([".tar", ".tar.gz", ".tar.bz2"])\n\n\ndef decompress(zip_name: str, target_directory: str) -> None:\n', 'O14.5'),
+     V('', 'break', _I, '    if extension == ".zip":\n        _do_decompress(target_directory, zipfile.ZipFile(zip_name))\n    elif extension == ".bz2":\n        decompressor_args = ["pbzip2", "-d", "-k", "-m10000", "-c"]\n        decompressor_lib_bz2 = bz2.open\n        _do_decompress_manually(target_directory, zip_name, decompressor_args, decompressor_lib_bz2)\n    elif extension == ".zst":\n        decompressor_args = ["pzstd", "-f", "-d", "-c"]\n        decompressor_lib_zst = ZstAdapter\n        _do_decompress_manually(target_directory, zip_name, decompressor_args, decompressor_lib_zst)\n    elif extension == ".gz":\n        decompressor_args = ["pigz", "-d", "-k", "-c"]\n        decompressor_lib_gzip = gzip.open\n        _do_decompress_manually(target_directory, zip_name, decompressor_args, decompressor_lib_gzip)\n    elif extension in [".tar", ".tar.gz", ".tgz", ".tar.bz2"]:\n', '    if extension in _SINGLE_FILE_DECOMPRESSORS:\n        decompressor_args, decompressor_lib = _SINGLE_FILE_DECOMPRESSORS[extension]\n        _do_decompress_manually(target_directory, zip_name, list(decompressor_args), decompressor_lib)\n    elif extension == ".zip":\n        _do_decompress(target_directory, zipfile.ZipFile(zip_name))\n    elif extension in _TAR_ARCHIVE_EXTENSIONS:\n')],
+    V('a supported extension whose branch does nothing', 'break', _I, '        decompressor_lib_gzip = gzip.open\n        _do_decompress_manually(target_directory, zip_name, decompressor_args, decompressor_lib_gzip)\n', '        decompressor_lib_gzip = gzip.open\n', 'O14.5'),
+    V('splitext as a loop over the multi-dot suffixes', 'keep', _I, '    if file_name.endswith(".tar.gz"):\n        return file_name[0:-7], file_name[-7:]\n    elif file_name.endswith(".tar.bz2"):\n        return file_name[0:-8], file_name[-8:]\n    else:\n        return os.path.splitext(file_name)\n', '    for suffix in (".tar.gz", ".tar.bz2"):\n        if file_name.endswith(suffix):\n            return file_name[: -len(suffix)], suffix\n    return os.path.splitext(file_name)\n'),
+    V('splitext loop without .tar.bz2', 'break', _I, '    if file_name.endswith(".tar.gz"):\n        return file_name[0:-7], file_name[-7:]\n    elif file_name.endswith(".tar.bz2"):\n        return file_name[0:-8], file_name[-8:]\n    else:\n        return os.path.splitext(file_name)\n', '    for suffix in (".tar.gz",):\n        if file_name.endswith(suffix):\n            return file_name[: -len(suffix)], suffix\n    return os.path.splitext(file_name)\n', 'O14.5'),
+    V('splitext cuts .tar.bz2 one character short', 'break', _I, '    if file_name.endswith(".tar.gz"):\n        return file_name[0:-7], file_name[-7:]\n    elif file_name.endswith(".tar.bz2"):\n        return file_name[0:-8], file_name[-8:]\n    else:\n        return os.path.splitext(file_name)\n', '    if file_name.endswith(".tar.gz"):\n        return file_name[0:-7], file_name[-7:]\n    elif file_name.endswith(".tar.bz2"):\n        return file_name[0:-7], file_name[-7:]\n    else:\n        return os.path.splitext(file_name)\n', 'O14.5'),
+    V('result of the external run kept in a local', 'keep', _I, '        if _do_decompress_manually_external(target_directory, filename, base_path_without_extension, decompressor_args):\n            return\n', '        done = _do_decompress_manually_external(target_directory, filename, base_path_without_extension, decompressor_args)\n        if done:\n            return\n'),
+    V('return whatever the external run reported', 'break', _I, '        if _do_decompress_manually_external(target_directory, filename, base_path_without_extension, decompressor_args):\n            return\n', '        done = _do_decompress_manually_external(target_directory, filename, base_path_without_extension, decompressor_args)\n        if not done:\n            return\n', 'O14.5'),
+    [V('download(): size check extracted into a helper function', 'keep', _N, '    download_size = os.path.getsize(tmp_data_set_path)\n    if expected_size_in_bytes is not None and download_size != expected_size_in_bytes:\n        if os.path.isfile(tmp_data_set_path):\n            os.remove(tmp_data_set_path)\n        raise exceptions.DataError(\n            "Download of [%s] is corrupt. Downloaded [%d] bytes but [%d] bytes are expected. Please retry."\n            % (local_path, download_size, expected_size_in_bytes)\n        )\n', '    _verify_size(tmp_data_set_path, local_path, expected_size_in_bytes)\n'),
+     V('', 'keep', _N, 'def download(url, local_path, expected_size_in_bytes=None, progress_indicator=None):\n', 'def _verify_size(tmp_path, final_path, expected):\n    actual = os.path.getsize(tmp_path)\n    if expected is not None and actual != expected:\n        if os.path.isfile(tmp_path):\n            os.remove(tmp_path)\n        raise exceptions.DataError("Download of [%s] is corrupt. Downloaded [%d] bytes but [%d] bytes are expected. Please retry." % (final_path, actual, expected))\n\n\ndef download(url, local_path, expected_size_in_bytes=None, progress_indicator=None):\n')],
+    [V('extracted size check tests the expected size by truthiness', 'break', _N, '    download_size = os.path.getsize(tmp_data_set_path)\n    if expected_size_in_bytes is not None and download_size != expected_size_in_bytes:\n        if os.path.isfile(tmp_data_set_path):\n            os.remove(tmp_data_set_path)\n        raise exceptions.DataError(\n            "Download of [%s] is corrupt. Downloaded [%d] bytes but [%d] bytes are expected. Please retry."\n            % (local_path, download_size, expected_size_in_bytes)\n        )\n', '    _verify_size(tmp_data_set_path, local_path, expected_size_in_bytes)\n', 'O14.1'),
+     V('', 'break', _N, 'def download(url, local_path, expected_size_in_bytes=None, progress_indicator=None):\n', 'def _verify_size(tmp_path, final_path, expected):\n    actual = os.path.getsize(tmp_path)\n    if expected and actual != expected:\n        if os.path.isfile(tmp_path):\n            os.remove(tmp_path)\n        raise exceptions.DataError("Download of [%s] is corrupt. Downloaded [%d] bytes but [%d] bytes are expected. Please retry." % (final_path, actual, expected))\n\n\ndef download(url, local_path, expected_size_in_bytes=None, progress_indicator=None):\n')],
+    [V('extracted size check raises without removing the temporary file', 'break', _N, '    download_size = os.path.getsize(tmp_data_set_path)\n    if expected_size_in_bytes is not None and download_size != expected_size_in_bytes:\n        if os.path.isfile(tmp_data_set_path):\n            os.remove(tmp_data_set_path)\n        raise exceptions.DataError(\n            "Download of [%s] is corrupt. Downloaded [%d] bytes but [%d] bytes are expected. Please retry."\n            % (local_path, download_size, expected_size_in_bytes)\n        )\n', '    _verify_size(tmp_data_set_path, local_path, expected_size_in_bytes)\n', 'O14.1'),
+     V('', 'break', _N, 'def download(url, local_path, expected_size_in_bytes=None, progress_indicator=None):\n', 'def _verify_size(tmp_path, final_path, expected):\n    actual = os.path.getsize(tmp_path)\n    if expected is not None and actual != expected:\n        raise exceptions.DataError("Download of [%s] is corrupt. Downloaded [%d] bytes but [%d] bytes are expected. Please retry." % (final_path, actual, expected))\n\n\ndef download(url, local_path, expected_size_in_bytes=None, progress_indicator=None):\n')],
+    [V('extracted size check measures the final path', 'break', _N, '    download_size = os.path.getsize(tmp_data_set_path)\n    if expected_size_in_bytes is not None and download_size != expected_size_in_bytes:\n        if os.path.isfile(tmp_data_set_path):\n            os.remove(tmp_data_set_path)\n        raise exceptions.DataError(\n            "Download of [%s] is corrupt. Downloaded [%d] bytes but [%d] bytes are expected. Please retry."\n            % (local_path, download_size, expected_size_in_bytes)\n        )\n', '    _verify_size(tmp_data_set_path, local_path, expected_size_in_bytes)\n', 'O14.1'),
+     V('', 'break', _N, 'def download(url, local_path, expected_size_in_bytes=None, progress_indicator=None):\n', 'def _verify_size(tmp_path, final_path, expected):\n    actual = os.path.getsize(final_path)\n    if expected is not None and actual != expected:\n        if os.path.isfile(tmp_path):\n            os.remove(tmp_path)\n        raise exceptions.DataError("Download of [%s] is corrupt. Downloaded [%d] bytes but [%d] bytes are expected. Please retry." % (final_path, actual, expected))\n\n\ndef download(url, local_path, expected_size_in_bytes=None, progress_indicator=None):\n')],
+    V('temporary name as an f-string', 'keep', _N, '    tmp_data_set_path = local_path + ".tmp"', '    tmp_data_set_path = f"{local_path}.tmp"'),
+    V('broad handler removes the temporary file inside try / except FileNotFoundError', 'keep', _N, '        if os.path.isfile(tmp_data_set_path):\n            os.remove(tmp_data_set_path)\n        raise\n', '        try:\n            os.remove(tmp_data_set_path)\n        except FileNotFoundError:\n            pass\n        raise\n'),
+    [V('F24 respelled: the publishing rename extracted into a helper function', 'keep', _I, '            os.replace(file_offset_table.offset_table_path, final_path)\n', '            _publish(file_offset_table.offset_table_path, final_path)\n'),
+     V('', 'keep', _I, 'def prepare_file_offset_table(', 'def _publish(tmp_path, final_path):\n    os.replace(tmp_path, final_path)\n\n\ndef prepare_file_offset_table(')],
+    [V('F24: extracted publishing helper renames in the wrong direction', 'break', _I, '            os.replace(file_offset_table.offset_table_path, final_path)\n', '            _publish(file_offset_table.offset_table_path, final_path)\n', 'O14.8'),
+     V('', 'break', _I, 'def prepare_file_offset_table(', 'def _publish(tmp_path, final_path):\n    os.replace(final_path, tmp_path)\n\n\ndef prepare_file_offset_table(')],
 ]
